@@ -16,6 +16,19 @@ type nat =
 let snd = function
 | (_, y) -> y
 
+(** val length : 'a1 list -> nat **)
+
+let rec length = function
+| [] -> O
+| _ :: l' -> S (length l')
+
+(** val app : 'a1 list -> 'a1 list -> 'a1 list **)
+
+let rec app l m =
+  match l with
+  | [] -> m
+  | a :: l1 -> a :: (app l1 m)
+
 type comparison =
 | Eq
 | Lt
@@ -130,6 +143,31 @@ type z =
 | Z0
 | Zpos of positive
 | Zneg of positive
+
+module Nat =
+ struct
+  (** val leb : nat -> nat -> bool **)
+
+  let rec leb n0 m =
+    match n0 with
+    | O -> true
+    | S n' -> (match m with
+               | O -> false
+               | S m' -> leb n' m')
+
+  (** val ltb : nat -> nat -> bool **)
+
+  let ltb n0 m =
+    leb (S n0) m
+
+  (** val div2 : nat -> nat **)
+
+  let rec div2 = function
+  | O -> O
+  | S n1 -> (match n1 with
+             | O -> O
+             | S n' -> S (div2 n'))
+ end
 
 module Pos =
  struct
@@ -274,6 +312,11 @@ module Coq_Pos =
   | XI n' -> f (iter f (iter f x n') n')
   | XO n' -> iter f (iter f x n') n'
   | XH -> f x
+
+  (** val pow : positive -> positive -> positive **)
+
+  let pow x =
+    iter (mul x) XH
 
   (** val size_nat : positive -> nat **)
 
@@ -433,6 +476,46 @@ let ascii_of_N = function
 let ascii_of_nat a =
   ascii_of_N (N.of_nat a)
 
+(** val hd_error : 'a1 list -> 'a1 option **)
+
+let hd_error = function
+| [] -> None
+| x :: _ -> Some x
+
+(** val nth_error : 'a1 list -> nat -> 'a1 option **)
+
+let rec nth_error l = function
+| O -> (match l with
+        | [] -> None
+        | x :: _ -> Some x)
+| S n1 -> (match l with
+           | [] -> None
+           | _ :: l0 -> nth_error l0 n1)
+
+(** val rev0 : 'a1 list -> 'a1 list **)
+
+let rec rev0 = function
+| [] -> []
+| x :: l' -> app (rev0 l') (x :: [])
+
+(** val concat : 'a1 list list -> 'a1 list **)
+
+let rec concat = function
+| [] -> []
+| x :: l0 -> app x (concat l0)
+
+(** val map : ('a1 -> 'a2) -> 'a1 list -> 'a2 list **)
+
+let rec map f = function
+| [] -> []
+| a :: t0 -> (f a) :: (map f t0)
+
+(** val flat_map : ('a1 -> 'a2 list) -> 'a1 list -> 'a2 list **)
+
+let rec flat_map f = function
+| [] -> []
+| x :: t0 -> app (f x) (flat_map f t0)
+
 (** val fold_left : ('a1 -> 'a2 -> 'a1) -> 'a2 list -> 'a1 -> 'a1 **)
 
 let rec fold_left f l a0 =
@@ -440,11 +523,47 @@ let rec fold_left f l a0 =
   | [] -> a0
   | b :: t0 -> fold_left f t0 (f a0 b)
 
+(** val fold_right : ('a2 -> 'a1 -> 'a1) -> 'a1 -> 'a2 list -> 'a1 **)
+
+let rec fold_right f a0 = function
+| [] -> a0
+| b :: t0 -> f b (fold_right f a0 t0)
+
 (** val existsb : ('a1 -> bool) -> 'a1 list -> bool **)
 
 let rec existsb f = function
 | [] -> false
 | a :: l0 -> (||) (f a) (existsb f l0)
+
+(** val filter : ('a1 -> bool) -> 'a1 list -> 'a1 list **)
+
+let rec filter f = function
+| [] -> []
+| x :: l0 -> if f x then x :: (filter f l0) else filter f l0
+
+(** val find : ('a1 -> bool) -> 'a1 list -> 'a1 option **)
+
+let rec find f = function
+| [] -> None
+| x :: tl -> if f x then Some x else find f tl
+
+(** val firstn : nat -> 'a1 list -> 'a1 list **)
+
+let rec firstn n0 l =
+  match n0 with
+  | O -> []
+  | S n1 -> (match l with
+             | [] -> []
+             | a :: l0 -> a :: (firstn n1 l0))
+
+(** val skipn : nat -> 'a1 list -> 'a1 list **)
+
+let rec skipn n0 l =
+  match n0 with
+  | O -> l
+  | S n1 -> (match l with
+             | [] -> []
+             | _ :: l0 -> skipn n1 l0)
 
 module Z =
  struct
@@ -608,6 +727,12 @@ module Z =
   | Zpos p -> Coq_Pos.to_nat p
   | _ -> O
 
+  (** val of_nat : nat -> z **)
+
+  let of_nat = function
+  | O -> Z0
+  | S n1 -> Zpos (Coq_Pos.of_succ_nat n1)
+
   (** val to_pos : z -> positive **)
 
   let to_pos = function
@@ -705,16 +830,16 @@ let zeq_bool x y =
   | Eq -> true
   | _ -> false
 
-(** val length : string -> nat **)
+(** val length0 : string -> nat **)
 
-let rec length s =
+let rec length0 s =
   (* If this appears, you're using String internals. Please don't *)
  (fun f0 f1 s ->
     let l = String.length s in
     if l = 0 then f0 () else f1 (String.get s 0) (String.sub s 1 (l-1)))
 
     (fun _ -> O)
-    (fun _ s' -> S (length s'))
+    (fun _ s' -> S (length0 s'))
     s
 
 type q = { qnum : z; qden : positive }
@@ -994,8 +1119,8 @@ let pad0 width z0 =
        (* If this appears, you're using String internals. Please don't *)
   (fun (c, s) -> String.make 1 c ^ s)
 
-       ('-', ((^) (zeros (sub (sub w (S O)) (length d))) d))
-  else let d = string_of_Z z0 in (^) (zeros (sub w (length d))) d
+       ('-', ((^) (zeros (sub (sub w (S O)) (length0 d))) d))
+  else let d = string_of_Z z0 in (^) (zeros (sub w (length0 d))) d
 
 (** val render_fmt : z -> z -> fmt_args -> string **)
 
@@ -1083,42 +1208,42 @@ let dunder_floordiv st self other =
 
 (** val mul0 : fixed_cls -> operand -> operand -> rnd -> z res **)
 
-let mul0 st arg1 arg2 round =
+let mul0 st arg1 arg2 round0 =
   let v1_1 = init st arg1 false in
   let v2_2 = init st arg2 false in
-  if negb (rnd_in round (RDown :: (RUp :: [])))
+  if negb (rnd_in round0 (RDown :: (RUp :: [])))
   then Raise ValueError
   else bind (pydivmod (Z.mul v1_1 v2_2) st.f_scale) (fun x ->
          let (v1_3, rem_4) = x in
-         if (&&) (truthy rem_4) (rnd_eqb round RUp)
+         if (&&) (truthy rem_4) (rnd_eqb round0 RUp)
          then let v1_5 = Z.add v1_3 (Zpos XH) in Ok v1_5
          else Ok v1_3)
 
 (** val div0 : fixed_cls -> operand -> operand -> rnd -> z res **)
 
-let div0 st arg1 arg2 round =
+let div0 st arg1 arg2 round0 =
   let v1_1 = init st arg1 false in
   let v2_2 = init st arg2 false in
-  if negb (rnd_in round (RDown :: (RUp :: [])))
+  if negb (rnd_in round0 (RDown :: (RUp :: [])))
   then Raise ValueError
   else bind (pydivmod (Z.mul v1_1 st.f_scale) v2_2) (fun x ->
          let (v1_3, rem_4) = x in
-         if (&&) (truthy rem_4) (rnd_eqb round RUp)
+         if (&&) (truthy rem_4) (rnd_eqb round0 RUp)
          then let v1_5 = Z.add v1_3 (Zpos XH) in Ok v1_5
          else Ok v1_3)
 
 (** val muldiv :
     fixed_cls -> operand -> operand -> operand -> rnd -> z res **)
 
-let muldiv st arg1 arg2 arg3 round =
+let muldiv st arg1 arg2 arg3 round0 =
   let v1_1 = init st arg1 false in
   let v2_2 = init st arg2 false in
   let v3_3 = init st arg3 false in
   bind (pydivmod (Z.mul v1_1 v2_2) v3_3) (fun x ->
     let (v1_4, rem_5) = x in
-    if negb (rnd_in round (RDown :: (RUp :: [])))
+    if negb (rnd_in round0 (RDown :: (RUp :: [])))
     then Raise ValueError
-    else if (&&) (truthy rem_5) (rnd_eqb round RUp)
+    else if (&&) (truthy rem_5) (rnd_eqb round0 RUp)
          then let v1_6 = Z.add v1_4 (Zpos XH) in Ok v1_6
          else Ok v1_4)
 
@@ -1252,34 +1377,34 @@ let dunder_floordiv0 st self = function
 
 (** val mul1 : guarded_cls -> operand -> operand -> rnd -> z res **)
 
-let mul1 st arg1 arg2 round =
+let mul1 st arg1 arg2 round0 =
   let v1_1 = init0 st arg1 false in
   let v2_2 = init0 st arg2 false in
   if truthy st.g_guard
   then bind (pydiv (Z.mul v1_1 v2_2) st.g_scale) (fun q_3 -> Ok q_3)
   else bind (pydivmod (Z.mul v1_1 v2_2) st.g_scale) (fun x ->
          let (v1_5, rem_6) = x in
-         if (&&) (truthy rem_6) (rnd_eqb round RUp)
+         if (&&) (truthy rem_6) (rnd_eqb round0 RUp)
          then let v1_7 = Z.add v1_5 (Zpos XH) in Ok v1_7
          else Ok v1_5)
 
 (** val div1 : guarded_cls -> operand -> operand -> rnd -> z res **)
 
-let div1 st arg1 arg2 round =
+let div1 st arg1 arg2 round0 =
   let v1_1 = init0 st arg1 false in
   let v2_2 = init0 st arg2 false in
   if truthy st.g_guard
   then bind (pydiv (Z.mul v1_1 st.g_scale) v2_2) (fun q_3 -> Ok q_3)
   else bind (pydivmod (Z.mul v1_1 st.g_scale) v2_2) (fun x ->
          let (v1_5, rem_6) = x in
-         if (&&) (truthy rem_6) (rnd_eqb round RUp)
+         if (&&) (truthy rem_6) (rnd_eqb round0 RUp)
          then let v1_7 = Z.add v1_5 (Zpos XH) in Ok v1_7
          else Ok v1_5)
 
 (** val muldiv0 :
     guarded_cls -> operand -> operand -> operand -> rnd -> z res **)
 
-let muldiv0 st arg1 arg2 arg3 round =
+let muldiv0 st arg1 arg2 arg3 round0 =
   let v1_1 = init0 st arg1 false in
   let v2_2 = init0 st arg2 false in
   let v3_3 = init0 st arg3 false in
@@ -1287,7 +1412,7 @@ let muldiv0 st arg1 arg2 arg3 round =
   then bind (pydiv (Z.mul v1_1 v2_2) v3_3) (fun q_4 -> Ok q_4)
   else bind (pydivmod (Z.mul v1_1 v2_2) v3_3) (fun x ->
          let (v1_6, rem_7) = x in
-         if (&&) (truthy rem_7) (rnd_eqb round RUp)
+         if (&&) (truthy rem_7) (rnd_eqb round0 RUp)
          then let v1_8 = Z.add v1_6 (Zpos XH) in Ok v1_8
          else Ok v1_6)
 
@@ -1663,6 +1788,2392 @@ let rational dp =
     let r = qred (Obj.magic q0) in
     (^) (string_of_Z r.qnum) ((^) "/" (string_of_Z (Zpos r.qden))));
     areport = (fun _ _ -> "") }
+
+(** val run_asc : ('a1 -> 'a1 -> bool) -> 'a1 -> 'a1 list -> nat **)
+
+let rec run_asc lt prev = function
+| [] -> O
+| x :: t0 -> if lt x prev then O else S (run_asc lt x t0)
+
+(** val run_desc : ('a1 -> 'a1 -> bool) -> 'a1 -> 'a1 list -> nat **)
+
+let rec run_desc lt prev = function
+| [] -> O
+| x :: t0 -> if lt x prev then S (run_desc lt x t0) else O
+
+(** val bsearch :
+    ('a1 -> 'a1 -> bool) -> nat -> 'a1 list -> 'a1 -> nat -> nat -> nat **)
+
+let rec bsearch lt fuel a pivot l r =
+  match fuel with
+  | O -> l
+  | S f ->
+    if Nat.ltb l r
+    then let p = add l (Nat.div2 (sub r l)) in
+         (match nth_error a p with
+          | Some ap ->
+            if lt pivot ap
+            then bsearch lt f a pivot l p
+            else bsearch lt f a pivot (S p) r
+          | None -> l)
+    else l
+
+(** val insert_at : 'a1 list -> nat -> 'a1 -> 'a1 list **)
+
+let insert_at a i x =
+  app (firstn i a) (x :: (skipn i a))
+
+(** val binsort : ('a1 -> 'a1 -> bool) -> 'a1 list -> 'a1 list -> 'a1 list **)
+
+let rec binsort lt sorted = function
+| [] -> sorted
+| x :: t0 ->
+  let n0 = length sorted in
+  binsort lt (insert_at sorted (bsearch lt (S n0) sorted x O n0) x) t0
+
+(** val py_sort : ('a1 -> 'a1 -> bool) -> 'a1 list -> 'a1 list **)
+
+let py_sort lt l = match l with
+| [] -> []
+| x :: l0 ->
+  (match l0 with
+   | [] -> x :: []
+   | y :: t0 ->
+     if lt y x
+     then let n0 = S (S (run_desc lt y t0)) in
+          binsort lt (rev0 (firstn n0 l)) (skipn n0 l)
+     else let n0 = S (S (run_asc lt y t0)) in
+          binsort lt (firstn n0 l) (skipn n0 l))
+
+(** val py_sorted : ('a1 -> 'a1 -> bool) -> bool -> 'a1 list -> 'a1 list **)
+
+let py_sorted lt reverse l =
+  if reverse then rev0 (py_sort lt (rev0 l)) else py_sort lt l
+
+type ctl =
+| Next
+| Brk
+| Cont
+| Abort
+
+type 'st cmd =
+| Do of ('st -> 'st)
+| Seq of 'st cmd * 'st cmd
+| Ite of ('st -> bool) * 'st cmd * 'st cmd
+| While of ('st -> bool) * 'st cmd
+| Break
+| Continue
+| Skip
+
+(** val iter_once :
+    ('a1 -> ('a1 * ctl) option) -> ('a1 -> bool) -> 'a1 ->
+    (('a1 * bool) * ctl) option **)
+
+let iter_once run0 g s =
+  if g s
+  then (match run0 s with
+        | Some p ->
+          let (s', c) = p in
+          (match c with
+           | Brk -> Some ((s', false), Next)
+           | Abort -> Some ((s', false), Abort)
+           | _ -> Some ((s', true), Next))
+        | None -> None)
+  else Some ((s, false), Next)
+
+(** val loopP :
+    ('a1 -> ('a1 * ctl) option) -> ('a1 -> bool) -> positive -> 'a1 ->
+    (('a1 * bool) * ctl) option **)
+
+let rec loopP run0 g p s =
+  match p with
+  | XI q0 ->
+    (match iter_once run0 g s with
+     | Some p0 ->
+       let (p1, c) = p0 in
+       let (s1, b) = p1 in
+       if b
+       then (match loopP run0 g q0 s1 with
+             | Some p2 ->
+               let (p3, c0) = p2 in
+               let (s2, b0) = p3 in
+               if b0 then loopP run0 g q0 s2 else Some ((s2, false), c0)
+             | None -> None)
+       else Some ((s1, false), c)
+     | None -> None)
+  | XO q0 ->
+    (match loopP run0 g q0 s with
+     | Some p0 ->
+       let (p1, c) = p0 in
+       let (s', b) = p1 in
+       if b then loopP run0 g q0 s' else Some ((s', false), c)
+     | None -> None)
+  | XH -> iter_once run0 g s
+
+(** val exec :
+    ('a1 -> bool) -> positive -> 'a1 cmd -> 'a1 -> ('a1 * ctl) option **)
+
+let rec exec crashed0 fuel c s =
+  match c with
+  | Do f -> let s' = f s in Some (s', (if crashed0 s' then Abort else Next))
+  | Seq (a, b) ->
+    (match exec crashed0 fuel a s with
+     | Some p ->
+       let (s', c0) = p in
+       (match c0 with
+        | Next -> exec crashed0 fuel b s'
+        | x -> Some (s', x))
+     | None -> None)
+  | Ite (g, a, b) ->
+    if g s then exec crashed0 fuel a s else exec crashed0 fuel b s
+  | While (g, body) ->
+    (match loopP (exec crashed0 fuel body) g fuel s with
+     | Some p ->
+       let (p0, k) = p in let (s', b) = p0 in if b then None else Some (s', k)
+     | None -> None)
+  | Break -> Some (s, Brk)
+  | Continue -> Some (s, Cont)
+  | Skip -> Some (s, Next)
+
+type cstate =
+| Hopeful
+| Elected
+| Defeated
+| Withdrawn
+
+(** val cstate_eqb : cstate -> cstate -> bool **)
+
+let cstate_eqb a b =
+  match a with
+  | Hopeful -> (match b with
+                | Hopeful -> true
+                | _ -> false)
+  | Elected -> (match b with
+                | Elected -> true
+                | _ -> false)
+  | Defeated -> (match b with
+                 | Defeated -> true
+                 | _ -> false)
+  | Withdrawn -> (match b with
+                  | Withdrawn -> true
+                  | _ -> false)
+
+type meth =
+| MWigm
+| MMeek
+| MQpq
+
+type tag =
+| TBegin
+| TCount
+| TLog
+| TRound
+| TTie
+| TElect
+| TDefeat
+| TIterate
+| TUnpend
+| TTransfer
+| TEnd
+
+type cand = { cid : z; corder : z; ctie : z; cname : string; cnick : 
+              string; cundecl : bool; cst : cstate; cpend : bool option;
+              cvote : t; ckf : t option; cquo : t option; ctc : t }
+
+(** val with_st : arith -> cand -> cstate -> bool option -> cand **)
+
+let with_st _ c s p =
+  { cid = c.cid; corder = c.corder; ctie = c.ctie; cname = c.cname; cnick =
+    c.cnick; cundecl = c.cundecl; cst = s; cpend = p; cvote = c.cvote; ckf =
+    c.ckf; cquo = c.cquo; ctc = c.ctc }
+
+(** val with_vote : arith -> cand -> t -> cand **)
+
+let with_vote _ c v =
+  { cid = c.cid; corder = c.corder; ctie = c.ctie; cname = c.cname; cnick =
+    c.cnick; cundecl = c.cundecl; cst = c.cst; cpend = c.cpend; cvote = v;
+    ckf = c.ckf; cquo = c.cquo; ctc = c.ctc }
+
+(** val with_kf : arith -> cand -> t option -> cand **)
+
+let with_kf _ c k =
+  { cid = c.cid; corder = c.corder; ctie = c.ctie; cname = c.cname; cnick =
+    c.cnick; cundecl = c.cundecl; cst = c.cst; cpend = c.cpend; cvote =
+    c.cvote; ckf = k; cquo = c.cquo; ctc = c.ctc }
+
+(** val with_quo : arith -> cand -> t option -> cand **)
+
+let with_quo _ c q0 =
+  { cid = c.cid; corder = c.corder; ctie = c.ctie; cname = c.cname; cnick =
+    c.cnick; cundecl = c.cundecl; cst = c.cst; cpend = c.cpend; cvote =
+    c.cvote; ckf = c.ckf; cquo = q0; ctc = c.ctc }
+
+(** val with_tc : arith -> cand -> t -> cand **)
+
+let with_tc _ c t0 =
+  { cid = c.cid; corder = c.corder; ctie = c.ctie; cname = c.cname; cnick =
+    c.cnick; cundecl = c.cundecl; cst = c.cst; cpend = c.cpend; cvote =
+    c.cvote; ckf = c.ckf; cquo = c.cquo; ctc = t0 }
+
+type ballot = { bmult : t; bidx : nat; bweight : t; bres : t; brank : z list }
+
+(** val with_bidx : arith -> ballot -> nat -> ballot **)
+
+let with_bidx _ b i =
+  { bmult = b.bmult; bidx = i; bweight = b.bweight; bres = b.bres; brank =
+    b.brank }
+
+(** val with_bweight : arith -> ballot -> t -> ballot **)
+
+let with_bweight _ b w =
+  { bmult = b.bmult; bidx = b.bidx; bweight = w; bres = b.bres; brank =
+    b.brank }
+
+(** val with_bres : arith -> ballot -> t -> ballot **)
+
+let with_bres _ b r =
+  { bmult = b.bmult; bidx = b.bidx; bweight = b.bweight; bres = r; brank =
+    b.brank }
+
+type eballot = { emult : t; eres : t; erank : z list list }
+
+type csnap = { sn_cid : z; sn_st : cstate; sn_pend : bool option;
+               sn_vote : t; sn_kf : t option; sn_quo : t option }
+
+type asnap = { as_c : csnap list; as_votes : t; as_quota : t;
+               as_nt : t option; as_surplus : t option;
+               as_ballots : (nat * t) list }
+
+type action = { a_tag : tag; a_msg : string; a_round : z;
+                a_snap : asnap option }
+
+type est = { cands : cand list; ballots : ballot list;
+             eballots : eballot list; quota : t; surplus : t; votes : 
+             t; exhausted : t; residual : t; round : z;
+             rounds : cand list list; actions : action list;
+             crash : exn option; lv_flag : bool; lv_last : t; lv_status : 
+             z; lv_batch : z list; lv_tx : t; lv_va : t }
+
+(** val set_cands : arith -> est -> cand list -> est **)
+
+let set_cands _ s c =
+  { cands = c; ballots = s.ballots; eballots = s.eballots; quota = s.quota;
+    surplus = s.surplus; votes = s.votes; exhausted = s.exhausted; residual =
+    s.residual; round = s.round; rounds = s.rounds; actions = s.actions;
+    crash = s.crash; lv_flag = s.lv_flag; lv_last = s.lv_last; lv_status =
+    s.lv_status; lv_batch = s.lv_batch; lv_tx = s.lv_tx; lv_va = s.lv_va }
+
+(** val set_ballots : arith -> est -> ballot list -> est **)
+
+let set_ballots _ s b =
+  { cands = s.cands; ballots = b; eballots = s.eballots; quota = s.quota;
+    surplus = s.surplus; votes = s.votes; exhausted = s.exhausted; residual =
+    s.residual; round = s.round; rounds = s.rounds; actions = s.actions;
+    crash = s.crash; lv_flag = s.lv_flag; lv_last = s.lv_last; lv_status =
+    s.lv_status; lv_batch = s.lv_batch; lv_tx = s.lv_tx; lv_va = s.lv_va }
+
+(** val set_eballots : arith -> est -> eballot list -> est **)
+
+let set_eballots _ s b =
+  { cands = s.cands; ballots = s.ballots; eballots = b; quota = s.quota;
+    surplus = s.surplus; votes = s.votes; exhausted = s.exhausted; residual =
+    s.residual; round = s.round; rounds = s.rounds; actions = s.actions;
+    crash = s.crash; lv_flag = s.lv_flag; lv_last = s.lv_last; lv_status =
+    s.lv_status; lv_batch = s.lv_batch; lv_tx = s.lv_tx; lv_va = s.lv_va }
+
+(** val set_quota : arith -> est -> t -> est **)
+
+let set_quota _ s q0 =
+  { cands = s.cands; ballots = s.ballots; eballots = s.eballots; quota = q0;
+    surplus = s.surplus; votes = s.votes; exhausted = s.exhausted; residual =
+    s.residual; round = s.round; rounds = s.rounds; actions = s.actions;
+    crash = s.crash; lv_flag = s.lv_flag; lv_last = s.lv_last; lv_status =
+    s.lv_status; lv_batch = s.lv_batch; lv_tx = s.lv_tx; lv_va = s.lv_va }
+
+(** val set_surplus : arith -> est -> t -> est **)
+
+let set_surplus _ s x =
+  { cands = s.cands; ballots = s.ballots; eballots = s.eballots; quota =
+    s.quota; surplus = x; votes = s.votes; exhausted = s.exhausted;
+    residual = s.residual; round = s.round; rounds = s.rounds; actions =
+    s.actions; crash = s.crash; lv_flag = s.lv_flag; lv_last = s.lv_last;
+    lv_status = s.lv_status; lv_batch = s.lv_batch; lv_tx = s.lv_tx; lv_va =
+    s.lv_va }
+
+(** val set_votes : arith -> est -> t -> est **)
+
+let set_votes _ s x =
+  { cands = s.cands; ballots = s.ballots; eballots = s.eballots; quota =
+    s.quota; surplus = s.surplus; votes = x; exhausted = s.exhausted;
+    residual = s.residual; round = s.round; rounds = s.rounds; actions =
+    s.actions; crash = s.crash; lv_flag = s.lv_flag; lv_last = s.lv_last;
+    lv_status = s.lv_status; lv_batch = s.lv_batch; lv_tx = s.lv_tx; lv_va =
+    s.lv_va }
+
+(** val set_exhausted : arith -> est -> t -> est **)
+
+let set_exhausted _ s x =
+  { cands = s.cands; ballots = s.ballots; eballots = s.eballots; quota =
+    s.quota; surplus = s.surplus; votes = s.votes; exhausted = x; residual =
+    s.residual; round = s.round; rounds = s.rounds; actions = s.actions;
+    crash = s.crash; lv_flag = s.lv_flag; lv_last = s.lv_last; lv_status =
+    s.lv_status; lv_batch = s.lv_batch; lv_tx = s.lv_tx; lv_va = s.lv_va }
+
+(** val set_residual : arith -> est -> t -> est **)
+
+let set_residual _ s x =
+  { cands = s.cands; ballots = s.ballots; eballots = s.eballots; quota =
+    s.quota; surplus = s.surplus; votes = s.votes; exhausted = s.exhausted;
+    residual = x; round = s.round; rounds = s.rounds; actions = s.actions;
+    crash = s.crash; lv_flag = s.lv_flag; lv_last = s.lv_last; lv_status =
+    s.lv_status; lv_batch = s.lv_batch; lv_tx = s.lv_tx; lv_va = s.lv_va }
+
+(** val set_round : arith -> est -> z -> est **)
+
+let set_round _ s r =
+  { cands = s.cands; ballots = s.ballots; eballots = s.eballots; quota =
+    s.quota; surplus = s.surplus; votes = s.votes; exhausted = s.exhausted;
+    residual = s.residual; round = r; rounds = s.rounds; actions = s.actions;
+    crash = s.crash; lv_flag = s.lv_flag; lv_last = s.lv_last; lv_status =
+    s.lv_status; lv_batch = s.lv_batch; lv_tx = s.lv_tx; lv_va = s.lv_va }
+
+(** val set_rounds : arith -> est -> cand list list -> est **)
+
+let set_rounds _ s r =
+  { cands = s.cands; ballots = s.ballots; eballots = s.eballots; quota =
+    s.quota; surplus = s.surplus; votes = s.votes; exhausted = s.exhausted;
+    residual = s.residual; round = s.round; rounds = r; actions = s.actions;
+    crash = s.crash; lv_flag = s.lv_flag; lv_last = s.lv_last; lv_status =
+    s.lv_status; lv_batch = s.lv_batch; lv_tx = s.lv_tx; lv_va = s.lv_va }
+
+(** val set_actions : arith -> est -> action list -> est **)
+
+let set_actions _ s a =
+  { cands = s.cands; ballots = s.ballots; eballots = s.eballots; quota =
+    s.quota; surplus = s.surplus; votes = s.votes; exhausted = s.exhausted;
+    residual = s.residual; round = s.round; rounds = s.rounds; actions = a;
+    crash = s.crash; lv_flag = s.lv_flag; lv_last = s.lv_last; lv_status =
+    s.lv_status; lv_batch = s.lv_batch; lv_tx = s.lv_tx; lv_va = s.lv_va }
+
+(** val set_crash : arith -> est -> exn -> est **)
+
+let set_crash _ s e =
+  { cands = s.cands; ballots = s.ballots; eballots = s.eballots; quota =
+    s.quota; surplus = s.surplus; votes = s.votes; exhausted = s.exhausted;
+    residual = s.residual; round = s.round; rounds = s.rounds; actions =
+    s.actions; crash =
+    (match s.crash with
+     | Some e0 -> Some e0
+     | None -> Some e); lv_flag = s.lv_flag; lv_last = s.lv_last; lv_status =
+    s.lv_status; lv_batch = s.lv_batch; lv_tx = s.lv_tx; lv_va = s.lv_va }
+
+(** val set_flag : arith -> est -> bool -> est **)
+
+let set_flag _ s b =
+  { cands = s.cands; ballots = s.ballots; eballots = s.eballots; quota =
+    s.quota; surplus = s.surplus; votes = s.votes; exhausted = s.exhausted;
+    residual = s.residual; round = s.round; rounds = s.rounds; actions =
+    s.actions; crash = s.crash; lv_flag = b; lv_last = s.lv_last; lv_status =
+    s.lv_status; lv_batch = s.lv_batch; lv_tx = s.lv_tx; lv_va = s.lv_va }
+
+(** val set_last : arith -> est -> t -> est **)
+
+let set_last _ s x =
+  { cands = s.cands; ballots = s.ballots; eballots = s.eballots; quota =
+    s.quota; surplus = s.surplus; votes = s.votes; exhausted = s.exhausted;
+    residual = s.residual; round = s.round; rounds = s.rounds; actions =
+    s.actions; crash = s.crash; lv_flag = s.lv_flag; lv_last = x; lv_status =
+    s.lv_status; lv_batch = s.lv_batch; lv_tx = s.lv_tx; lv_va = s.lv_va }
+
+(** val set_status : arith -> est -> z -> est **)
+
+let set_status _ s x =
+  { cands = s.cands; ballots = s.ballots; eballots = s.eballots; quota =
+    s.quota; surplus = s.surplus; votes = s.votes; exhausted = s.exhausted;
+    residual = s.residual; round = s.round; rounds = s.rounds; actions =
+    s.actions; crash = s.crash; lv_flag = s.lv_flag; lv_last = s.lv_last;
+    lv_status = x; lv_batch = s.lv_batch; lv_tx = s.lv_tx; lv_va = s.lv_va }
+
+(** val set_batch : arith -> est -> z list -> est **)
+
+let set_batch _ s x =
+  { cands = s.cands; ballots = s.ballots; eballots = s.eballots; quota =
+    s.quota; surplus = s.surplus; votes = s.votes; exhausted = s.exhausted;
+    residual = s.residual; round = s.round; rounds = s.rounds; actions =
+    s.actions; crash = s.crash; lv_flag = s.lv_flag; lv_last = s.lv_last;
+    lv_status = s.lv_status; lv_batch = x; lv_tx = s.lv_tx; lv_va = s.lv_va }
+
+(** val set_txva : arith -> est -> t -> t -> est **)
+
+let set_txva _ s tx va =
+  { cands = s.cands; ballots = s.ballots; eballots = s.eballots; quota =
+    s.quota; surplus = s.surplus; votes = s.votes; exhausted = s.exhausted;
+    residual = s.residual; round = s.round; rounds = s.rounds; actions =
+    s.actions; crash = s.crash; lv_flag = s.lv_flag; lv_last = s.lv_last;
+    lv_status = s.lv_status; lv_batch = s.lv_batch; lv_tx = tx; lv_va = va }
+
+(** val crashed : arith -> est -> bool **)
+
+let crashed _ s =
+  match s.crash with
+  | Some _ -> true
+  | None -> false
+
+(** val in_state : arith -> cstate -> cand -> bool **)
+
+let in_state _ st c =
+  cstate_eqb c.cst st
+
+(** val is_pending : arith -> cand -> bool **)
+
+let is_pending a c =
+  (&&) (in_state a Elected c) (match c.cpend with
+                               | Some b -> b
+                               | None -> false)
+
+(** val hopefuls : arith -> est -> cand list **)
+
+let hopefuls a s =
+  filter (in_state a Hopeful) s.cands
+
+(** val electeds : arith -> est -> cand list **)
+
+let electeds a s =
+  filter (in_state a Elected) s.cands
+
+(** val defeateds : arith -> est -> cand list **)
+
+let defeateds a s =
+  filter (in_state a Defeated) s.cands
+
+(** val withdrawns : arith -> est -> cand list **)
+
+let withdrawns a s =
+  filter (in_state a Withdrawn) s.cands
+
+(** val eligibles : arith -> est -> cand list **)
+
+let eligibles a s =
+  filter (fun c -> negb (in_state a Withdrawn c)) s.cands
+
+(** val pendings : arith -> est -> cand list **)
+
+let pendings a s =
+  filter (is_pending a) s.cands
+
+(** val nlen : 'a1 list -> z **)
+
+let nlen l =
+  Z.of_nat (length l)
+
+(** val find_cand : arith -> cand list -> z -> cand option **)
+
+let find_cand _ l i =
+  find (fun c -> Z.eqb c.cid i) l
+
+(** val upd_cand : arith -> z -> (cand -> cand) -> cand list -> cand list **)
+
+let upd_cand _ i f l =
+  map (fun c -> if Z.eqb c.cid i then f c else c) l
+
+(** val upd : arith -> est -> z -> (cand -> cand) -> est **)
+
+let upd a s i f =
+  set_cands a s (upd_cand a i f s.cands)
+
+(** val vote_key_lt : arith -> cand -> cand -> bool **)
+
+let vote_key_lt a a0 b =
+  if a.eqv a0.cvote b.cvote
+  then Z.ltb a0.corder b.corder
+  else a.ltv a0.cvote b.cvote
+
+(** val by_vote : arith -> bool -> cand list -> cand list **)
+
+let by_vote a reverse l =
+  py_sorted (vote_key_lt a) reverse l
+
+(** val by_tie : arith -> cand list -> cand list **)
+
+let by_tie _ l =
+  py_sorted (fun a b -> Z.ltb a.ctie b.ctie) false l
+
+(** val by_order : arith -> cand list -> cand list **)
+
+let by_order _ l =
+  py_sorted (fun a b -> Z.ltb a.corder b.corder) false l
+
+(** val vsum : arith -> t list -> t **)
+
+let vsum a l =
+  fold_left a.add0 l (a.of_int Z0)
+
+(** val top_rank : arith -> ballot -> z option **)
+
+let top_rank _ b =
+  nth_error b.brank b.bidx
+
+(** val b_exhausted : arith -> ballot -> bool **)
+
+let b_exhausted _ b =
+  Nat.leb (length b.brank) b.bidx
+
+(** val bvote : arith -> ballot -> t **)
+
+let bvote a b =
+  if a.eqv b.bmult (a.of_int (Zpos XH))
+  then b.bweight
+  else a.mulv b.bweight b.bmult
+
+type config = { cf_rule : string; cf_method : meth; cf_nseats : z;
+                cf_nballots : z; cf_integer_quota : bool;
+                cf_batch_zero : bool; cf_batch : bool; cf_warren : bool;
+                cf_omega10 : z }
+
+(** val v0 : arith -> t **)
+
+let v0 a =
+  a.of_int Z0
+
+(** val v1 : arith -> t **)
+
+let v1 a =
+  a.of_int (Zpos XH)
+
+(** val seats_left : arith -> config -> est -> z **)
+
+let seats_left a cfg s =
+  Z.sub cfg.cf_nseats (nlen (electeds a s))
+
+(** val csnap_of : arith -> cand -> csnap **)
+
+let csnap_of _ c =
+  { sn_cid = c.cid; sn_st = c.cst; sn_pend = c.cpend; sn_vote = c.cvote;
+    sn_kf = c.ckf; sn_quo = c.cquo }
+
+(** val snap_of : arith -> config -> est -> asnap **)
+
+let snap_of a cfg s =
+  { as_c = (map (csnap_of a) s.cands); as_votes =
+    (match cfg.cf_method with
+     | MQpq -> s.votes
+     | _ -> vsum a (map (fun c -> c.cvote) (eligibles a s))); as_quota =
+    s.quota; as_nt =
+    (match cfg.cf_method with
+     | MWigm -> Some s.exhausted
+     | MMeek -> Some s.residual
+     | MQpq -> None); as_surplus =
+    (match cfg.cf_method with
+     | MQpq -> None
+     | _ -> Some s.surplus); as_ballots =
+    (map (fun b -> (b.bidx, b.bweight)) s.ballots) }
+
+(** val is_log : tag -> bool **)
+
+let is_log = function
+| TLog -> true
+| _ -> false
+
+(** val is_round : tag -> bool **)
+
+let is_round = function
+| TRound -> true
+| _ -> false
+
+(** val log_action : arith -> config -> tag -> string -> est -> est **)
+
+let log_action a cfg t0 msg s =
+  if is_log t0
+  then set_actions a s ({ a_tag = t0; a_msg = msg; a_round = s.round;
+         a_snap = None } :: s.actions)
+  else let s1 =
+         if is_round t0
+         then set_rounds a s (app s.rounds (s.cands :: []))
+         else s
+       in
+       set_actions a s1 ({ a_tag = t0; a_msg = msg; a_round = s1.round;
+         a_snap = (Some (snap_of a cfg s1)) } :: s1.actions)
+
+(** val log_msg : arith -> config -> string -> est -> est **)
+
+let log_msg a cfg msg s =
+  log_action a cfg TLog msg s
+
+(** val new_round : arith -> config -> est -> est **)
+
+let new_round a cfg s =
+  log_action a cfg TRound "New Round"
+    (set_round a s (Z.add s.round (Zpos XH)))
+
+(** val elect : arith -> config -> z -> string -> bool -> est -> est **)
+
+let elect a cfg i msg pending s =
+  match find_cand a s.cands i with
+  | Some c ->
+    log_action a cfg TElect ((^) msg ((^) ": " c.cname))
+      (upd a s i (fun c0 -> with_st a c0 Elected (Some pending)))
+  | None -> set_crash a s KeyError
+
+(** val elect_default : arith -> config -> z -> bool -> est -> est **)
+
+let elect_default a cfg i pending s =
+  elect a cfg i (if pending then "Elect, transfer pending" else "Elect")
+    pending s
+
+(** val defeat : arith -> config -> z -> string -> est -> est **)
+
+let defeat a cfg i msg s =
+  match find_cand a s.cands i with
+  | Some c ->
+    log_action a cfg TDefeat ((^) msg ((^) ": " c.cname))
+      (upd a s i (fun c0 -> with_st a c0 Defeated c0.cpend))
+  | None -> set_crash a s KeyError
+
+(** val unpend : arith -> config -> z -> string option -> est -> est **)
+
+let unpend a cfg i msg s =
+  match find_cand a s.cands i with
+  | Some c ->
+    if is_pending a c
+    then let s1 = upd a s i (fun c0 -> with_st a c0 Elected (Some false)) in
+         (match msg with
+          | Some m -> log_action a cfg TUnpend ((^) m ((^) ": " c.cname)) s1
+          | None -> s1)
+    else set_crash a s AssertionError
+  | None -> set_crash a s KeyError
+
+(** val unelect : arith -> z -> est -> est **)
+
+let unelect a i s =
+  upd a s i (fun c -> with_st a c Hopeful c.cpend)
+
+(** val set_vote : arith -> z -> t -> est -> est **)
+
+let set_vote a i v s =
+  upd a s i (fun c -> with_vote a c v)
+
+(** val add_vote : arith -> z -> t -> est -> est **)
+
+let add_vote a i v s =
+  upd a s i (fun c -> with_vote a c (a.add0 c.cvote v))
+
+(** val cvote_of : arith -> est -> z -> t **)
+
+let cvote_of a s i =
+  match find_cand a s.cands i with
+  | Some c -> c.cvote
+  | None -> v0 a
+
+(** val cname_of : arith -> est -> z -> string **)
+
+let cname_of a s i =
+  match find_cand a s.cands i with
+  | Some c -> c.cname
+  | None -> "?"
+
+(** val join : string -> string list -> string **)
+
+let rec join sep = function
+| [] -> ""
+| x :: t0 -> (match t0 with
+              | [] -> x
+              | _ :: _ -> (^) x ((^) sep (join sep t0)))
+
+(** val names : arith -> cand list -> string **)
+
+let names _ l =
+  join ", " (map (fun c -> c.cname) l)
+
+(** val break_tie :
+    arith -> config -> (string -> string -> string) -> cand list -> est ->
+    est * z option **)
+
+let break_tie a cfg fmt tied s =
+  match tied with
+  | [] -> ((set_crash a s IndexError), None)
+  | c :: l ->
+    (match l with
+     | [] -> (s, (Some c.cid))
+     | _ :: _ ->
+       (match by_tie a tied with
+        | [] -> ((set_crash a s IndexError), None)
+        | t0 :: _ ->
+          ((log_action a cfg TTie (fmt (names a tied) t0.cname) s), (Some
+            t0.cid))))
+
+(** val tie_fmt : string -> string -> string -> string **)
+
+let tie_fmt reason nm t0 =
+  (^) "Break tie (" ((^) reason ((^) "): [" ((^) nm ((^) "] -> " t0))))
+
+(** val max_vote : arith -> cand list -> t option **)
+
+let max_vote a = function
+| [] -> None
+| c :: t0 ->
+  Some
+    (fold_left (fun m y -> if a.gtv y.cvote m then y.cvote else m) t0 c.cvote)
+
+(** val min_vote : arith -> cand list -> t option **)
+
+let min_vote a = function
+| [] -> None
+| c :: t0 ->
+  Some
+    (fold_left (fun m y -> if a.ltv y.cvote m then y.cvote else m) t0 c.cvote)
+
+(** val advance_from : (z -> bool) -> z list -> nat -> nat **)
+
+let rec advance_from cont r i =
+  match r with
+  | [] -> i
+  | c :: t0 -> if cont c then i else advance_from cont t0 (S i)
+
+(** val cont_pred : arith -> (cand -> bool) -> est -> z -> bool **)
+
+let cont_pred a keep s i =
+  match find_cand a s.cands i with
+  | Some c -> keep c
+  | None -> false
+
+(** val transfer :
+    arith -> (cand -> bool) -> est -> ballot -> est * ballot **)
+
+let transfer a keep s b =
+  let i = advance_from (cont_pred a keep s) (skipn b.bidx b.brank) b.bidx in
+  let b' = with_bidx a b i in
+  (match top_rank a b' with
+   | Some c -> ((add_vote a c (bvote a b') s), b')
+   | None -> ((set_exhausted a s (a.add0 s.exhausted (bvote a b'))), b'))
+
+(** val process_ballots :
+    arith -> (est -> ballot -> est * ballot) -> (ballot -> bool) -> ballot
+    list -> est -> ballot list -> est * ballot list **)
+
+let rec process_ballots a f sel bs s acc =
+  match bs with
+  | [] -> (s, (rev0 acc))
+  | b :: t0 ->
+    if crashed a s
+    then (s, (app (rev0 acc) bs))
+    else if sel b
+         then let (s', b') = f s b in
+              process_ballots a f sel t0 s' (b' :: acc)
+         else process_ballots a f sel t0 s (b :: acc)
+
+(** val for_ballots :
+    arith -> (est -> ballot -> est * ballot) -> (ballot -> bool) -> est -> est **)
+
+let for_ballots a f sel s =
+  let (s', bs) = process_ballots a f sel s.ballots s [] in set_ballots a s' bs
+
+(** val top_is : arith -> z -> ballot -> bool **)
+
+let top_is a i b =
+  match top_rank a b with
+  | Some c -> Z.eqb c i
+  | None -> false
+
+(** val top_in : arith -> z list -> ballot -> bool **)
+
+let top_in a l b =
+  match top_rank a b with
+  | Some c -> existsb (Z.eqb c) l
+  | None -> false
+
+(** val reweigh_transfer :
+    arith -> (cand -> bool) -> (t -> t -> t -> t res) -> z -> t -> est ->
+    ballot -> est * ballot **)
+
+let reweigh_transfer a keep rew i surp s b =
+  match rew b.bweight surp (cvote_of a s i) with
+  | Ok w -> transfer a keep s (with_bweight a b w)
+  | Raise e -> ((set_crash a s e), b)
+
+(** val rew_wigm : arith -> t -> t -> t -> t res **)
+
+let rew_wigm a w surp v =
+  a.divv (a.mulv w surp) v
+
+(** val rew_scot : arith -> t -> t -> t -> t res **)
+
+let rew_scot a w surp v =
+  a.kmuldiv w surp v RDown
+
+(** val initial_count : arith -> est -> est **)
+
+let initial_count a s =
+  fold_left (fun s0 b ->
+    match top_rank a b with
+    | Some c -> add_vote a c (bvote a b) s0
+    | None -> set_crash a s0 AttributeError) s.ballots s
+
+(** val is_hopeful : arith -> cand -> bool **)
+
+let is_hopeful a c =
+  in_state a Hopeful c
+
+(** val elect_with_quota :
+    arith -> config -> (est -> cand -> bool) -> (est -> cand -> bool) ->
+    string option -> (cand -> bool) -> est -> est **)
+
+let elect_with_quota a cfg has_quota pend msg extra s =
+  let l =
+    filter (fun c -> (&&) (extra c) (has_quota s c))
+      (by_vote a true (hopefuls a s))
+  in
+  fold_left (fun s0 c ->
+    match msg with
+    | Some m -> elect a cfg c.cid m (pend s0 c) s0
+    | None -> elect_default a cfg c.cid (pend s0 c) s0) l s
+
+(** val ge_quota : arith -> est -> cand -> bool **)
+
+let ge_quota a s c =
+  a.gev c.cvote s.quota
+
+(** val has_quota_exact : arith -> est -> cand -> bool **)
+
+let has_quota_exact a s c =
+  if a.exact then a.gtv c.cvote s.quota else a.gev c.cvote s.quota
+
+(** val transfer_high_surplus :
+    arith -> config -> (cand list -> est -> est * z option) -> (t -> t -> t
+    -> t res) -> est -> est **)
+
+let transfer_high_surplus a cfg bt rew s =
+  match max_vote a (pendings a s) with
+  | Some hv ->
+    let highs = filter (fun c -> a.eqv c.cvote hv) (pendings a s) in
+    let (s1, o) = bt highs s in
+    (match o with
+     | Some h ->
+       let s2 = unpend a cfg h (Some "Transfer high surplus") s1 in
+       if crashed a s2
+       then s2
+       else let surp = a.sub0 (cvote_of a s2 h) s2.quota in
+            let s3 =
+              for_ballots a (reweigh_transfer a (is_hopeful a) rew h surp)
+                (top_is a h) s2
+            in
+            if crashed a s3
+            then s3
+            else let s4 = set_vote a h s3.quota s3 in
+                 log_action a cfg TTransfer
+                   ((^) "Surplus transferred: "
+                     ((^) (cname_of a s4 h) ((^) " (" ((^) (a.str surp) ")"))))
+                   s4
+     | None -> s1)
+  | None -> set_crash a s ValueError
+
+(** val transfer_defeated_one : arith -> config -> z -> est -> est **)
+
+let transfer_defeated_one a cfg i s =
+  let s1 = for_ballots a (transfer a (is_hopeful a)) (top_is a i) s in
+  let s2 = set_vote a i (v0 a) s1 in
+  log_action a cfg TTransfer ((^) "Transfer defeated: " (cname_of a s2 i)) s2
+
+(** val low_candidates : arith -> est -> (t * cand list) option **)
+
+let low_candidates a s =
+  match min_vote a (hopefuls a s) with
+  | Some lv -> Some (lv, (filter (fun c -> a.eqv c.cvote lv) (hopefuls a s)))
+  | None -> None
+
+(** val defeat_low :
+    arith -> config -> (cand list -> est -> est * z option) -> string -> est
+    -> est **)
+
+let defeat_low a cfg bt msg s =
+  match low_candidates a s with
+  | Some p ->
+    let (_, lows) = p in
+    let (s1, o) = bt lows s in
+    (match o with
+     | Some l ->
+       let s2 = defeat a cfg l msg s1 in
+       if crashed a s2 then s2 else transfer_defeated_one a cfg l s2
+     | None -> s1)
+  | None -> set_crash a s ValueError
+
+(** val unpend_all : arith -> config -> est -> est **)
+
+let unpend_all a cfg s =
+  fold_left (fun s0 c -> unpend a cfg c.cid None s0) (pendings a s) s
+
+(** val elect_or_defeat_remaining : arith -> config -> est -> est **)
+
+let elect_or_defeat_remaining a cfg s =
+  fold_left (fun s0 c ->
+    if Z.ltb (nlen (electeds a s0)) cfg.cf_nseats
+    then elect a cfg c.cid "Elect remaining" false s0
+    else defeat a cfg c.cid "Defeat remaining" s0) (hopefuls a s) s
+
+(** val group_tied :
+    arith -> t -> cand list -> t -> cand list -> cand list list -> cand list
+    list **)
+
+let rec group_tied a surp l vote group acc =
+  match l with
+  | [] -> rev0 (match group with
+                | [] -> acc
+                | _ :: _ -> (rev0 group) :: acc)
+  | c :: t0 ->
+    if a.gev (a.add0 vote surp) c.cvote
+    then group_tied a surp t0 vote (c :: group) acc
+    else group_tied a surp t0 c.cvote (c :: [])
+           (match group with
+            | [] -> acc
+            | _ :: _ -> (rev0 group) :: acc)
+
+(** val scan_groups :
+    arith -> t -> z -> cand list list -> t -> z -> nat -> nat option -> nat
+    option **)
+
+let rec scan_groups a surp maxDefeat gs vote ncand g maxg =
+  match gs with
+  | [] -> maxg
+  | grp :: t0 ->
+    (match t0 with
+     | [] -> maxg
+     | nxt :: _ ->
+       let ncand' = Z.add ncand (nlen grp) in
+       if Z.ltb maxDefeat ncand'
+       then maxg
+       else let vote' = a.add0 vote (vsum a (map (fun c -> c.cvote) grp)) in
+            let maxg' =
+              match nxt with
+              | [] -> maxg
+              | c :: _ ->
+                if a.ltv (a.add0 vote' surp) c.cvote then Some g else maxg
+            in
+            scan_groups a surp maxDefeat t0 vote' ncand' (S g) maxg')
+
+(** val batch_defeat : arith -> config -> t -> est -> cand list **)
+
+let batch_defeat a cfg surp s =
+  let sorted = by_vote a false (hopefuls a s) in
+  let groups = group_tied a surp sorted (v0 a) [] [] in
+  let maxDefeat = Z.sub (nlen (hopefuls a s)) (seats_left a cfg s) in
+  (match scan_groups a surp maxDefeat groups (v0 a) Z0 O None with
+   | Some g -> concat (firstn (S g) groups)
+   | None -> [])
+
+(** val nonempty : 'a1 list -> bool **)
+
+let nonempty = function
+| [] -> false
+| _ :: _ -> true
+
+(** val guard_main : arith -> config -> est -> bool **)
+
+let guard_main a cfg s =
+  (&&) (Z.ltb (seats_left a cfg s) (nlen (hopefuls a s)))
+    (Z.ltb Z0 (seats_left a cfg s))
+
+(** val bt_simple :
+    arith -> config -> string -> cand list -> est -> est * z option **)
+
+let bt_simple a cfg reason tied s =
+  break_tie a cfg (tie_fmt reason) tied s
+
+(** val droop_quota_eps : arith -> config -> t res **)
+
+let droop_quota_eps a cfg =
+  let nseats = cfg.cf_nseats in
+  let nballots = cfg.cf_nballots in
+  (match a.divv (a.of_int nballots) (a.of_int (Z.add nseats (Zpos XH))) with
+   | Ok q0 -> Ok (a.add0 q0 a.epsilon)
+   | Raise e -> Raise e)
+
+(** val integer_droop_quota : arith -> config -> t **)
+
+let integer_droop_quota a cfg =
+  let nseats = cfg.cf_nseats in
+  let nballots = cfg.cf_nballots in
+  a.of_int (Z.add (Z.div nballots (Z.add nseats (Zpos XH))) (Zpos XH))
+
+(** val start_count : arith -> t res -> est -> est **)
+
+let start_count a =
+  let v2 = v0 a in
+  (fun q0 s ->
+  match q0 with
+  | Ok q1 -> set_exhausted a (initial_count a (set_quota a s q1)) v2
+  | Raise e -> set_crash a s e)
+
+(** val cands_of : arith -> est -> z list -> cand list **)
+
+let cands_of a s cids =
+  flat_map (fun i ->
+    match find_cand a s.cands i with
+    | Some c -> c :: []
+    | None -> []) cids
+
+(** val transfer_batch : arith -> config -> (cand -> bool) -> est -> est **)
+
+let transfer_batch a cfg =
+  let v2 = v0 a in
+  let log = log_action a cfg in
+  (fun keep s ->
+  let cids = s.lv_batch in
+  let s1 = for_ballots a (transfer a keep) (top_in a cids) s in
+  let s2 = fold_left (fun s0 i -> set_vote a i v2 s0) cids s1 in
+  log TTransfer ((^) "Transfer defeated: " (names a (cands_of a s2 cids))) s2)
+
+(** val wigm_quota : arith -> config -> t res **)
+
+let wigm_quota a cfg =
+  let nseats = cfg.cf_nseats in
+  let nballots = cfg.cf_nballots in
+  if cfg.cf_integer_quota
+  then Ok
+         (a.of_int
+           (Z.add (Zpos XH) (Z.div nballots (Z.add nseats (Zpos XH)))))
+  else if a.exact
+       then a.divv (a.of_int nballots) (a.of_int (Z.add nseats (Zpos XH)))
+       else droop_quota_eps a cfg
+
+(** val wigm_defeat : arith -> config -> est -> est **)
+
+let wigm_defeat a cfg =
+  let v2 = v0 a in
+  (fun s ->
+  match low_candidates a s with
+  | Some p ->
+    let (lv, lows) = p in
+    if (&&) (a.eqv lv v2) cfg.cf_batch_zero
+    then let s1 =
+           fold_left (fun s0 c -> defeat a cfg c.cid "Defeat batch(zero)" s0)
+             lows s
+         in
+         fold_left (fun s0 c -> transfer_defeated_one a cfg c.cid s0) lows s1
+    else let (s1, o) = bt_simple a cfg "defeat" lows s in
+         (match o with
+          | Some l ->
+            let s2 = defeat a cfg l "Defeat" s1 in
+            if crashed a s2 then s2 else transfer_defeated_one a cfg l s2
+          | None -> s1)
+  | None -> set_crash a s ValueError)
+
+(** val wigm : arith -> config -> est cmd **)
+
+let wigm a cfg =
+  let log = log_action a cfg in
+  Seq ((Do (fun s ->
+  log TBegin "Begin Count" (start_count a (wigm_quota a cfg) s))), (Seq
+  ((While ((guard_main a cfg), (Seq ((Do (new_round a cfg)), (Seq ((Do
+  (elect_with_quota a cfg (has_quota_exact a) (fun _ _ -> true) None
+    (fun _ -> true))), (Ite ((fun s -> nonempty (pendings a s)), (Do
+  (transfer_high_surplus a cfg (bt_simple a cfg "surplus") (rew_wigm a))),
+  (Ite ((fun s -> nonempty (hopefuls a s)), (Do (wigm_defeat a cfg)),
+  Skip)))))))))), (Seq ((Do (unpend_all a cfg)), (Do
+  (elect_or_defeat_remaining a cfg)))))))
+
+(** val pending_surplus : arith -> est -> t **)
+
+let pending_surplus a s =
+  vsum a (map (fun c -> a.sub0 c.cvote s.quota) (pendings a s))
+
+(** val prf_find_batch : arith -> config -> est -> est **)
+
+let prf_find_batch a cfg s =
+  set_batch a s
+    (if cfg.cf_batch
+     then map (fun c -> c.cid) (batch_defeat a cfg (pending_surplus a s) s)
+     else [])
+
+(** val defeat_batch_in_ballot_order :
+    arith -> config -> string -> est -> est **)
+
+let defeat_batch_in_ballot_order a cfg msg s =
+  fold_left (fun s0 c -> defeat a cfg c.cid msg s0)
+    (by_order a (cands_of a s s.lv_batch)) s
+
+(** val wigm_prf : arith -> config -> est cmd **)
+
+let wigm_prf a cfg =
+  let log = log_action a cfg in
+  Seq ((Do (fun s ->
+  log TBegin "Begin Count" (start_count a (droop_quota_eps a cfg) s))), (Seq
+  ((While ((guard_main a cfg), (Seq ((Do (new_round a cfg)), (Seq ((Do
+  (elect_with_quota a cfg (ge_quota a) (fun _ _ -> true) None (fun _ -> true))),
+  (Seq ((Do (prf_find_batch a cfg)), (Seq ((Ite ((fun s ->
+  nonempty s.lv_batch), (Seq ((Do
+  (defeat_batch_in_ballot_order a cfg "Defeat sure loser")), (Seq ((Ite
+  ((fun s -> Z.leb (nlen (hopefuls a s)) (seats_left a cfg s)), Break,
+  Skip)), (Seq ((Do (transfer_batch a cfg (is_hopeful a))), Continue)))))),
+  Skip)), (Ite ((fun s -> nonempty (pendings a s)), (Do
+  (transfer_high_surplus a cfg (bt_simple a cfg "surplus") (rew_wigm a))),
+  (Ite ((fun s -> nonempty (hopefuls a s)), (Do
+  (defeat_low a cfg (bt_simple a cfg "defeat") "Defeat")),
+  Skip)))))))))))))), (Seq ((Do (unpend_all a cfg)), (Do
+  (elect_or_defeat_remaining a cfg)))))))
+
+(** val count_complete : arith -> config -> est -> bool **)
+
+let count_complete a cfg s =
+  (||) (Z.leb (seats_left a cfg s) Z0)
+    (Z.leb (nlen (hopefuls a s)) (seats_left a cfg s))
+
+(** val scot_stage_pick :
+    arith -> bool -> z list -> cand list -> cand option **)
+
+let scot_stage_pick a is_defeat tied_cids cN =
+  let tiedCN =
+    by_vote a false (filter (fun cn -> existsb (Z.eqb cn.cid) tied_cids) cN)
+  in
+  (match if is_defeat then hd_error tiedCN else hd_error (rev0 tiedCN) with
+   | Some ref ->
+     (match filter (fun cn -> a.eqv cn.cvote ref.cvote) tiedCN with
+      | [] -> None
+      | cn0 :: l -> (match l with
+                     | [] -> Some cn0
+                     | _ :: _ -> None))
+   | None -> None)
+
+(** val scot_search :
+    arith -> bool -> z list -> cand list list -> cand option **)
+
+let rec scot_search a is_defeat tied_cids = function
+| [] -> None
+| cN :: older ->
+  (match scot_stage_pick a is_defeat tied_cids cN with
+   | Some cn0 -> Some cn0
+   | None -> scot_search a is_defeat tied_cids older)
+
+(** val scot_break_tie :
+    arith -> config -> bool -> string -> cand list -> est -> est * z option **)
+
+let scot_break_tie a cfg =
+  let log = log_action a cfg in
+  (fun is_defeat reason tied s ->
+  match tied with
+  | [] -> ((set_crash a s IndexError), None)
+  | c :: l ->
+    (match l with
+     | [] -> (s, (Some c.cid))
+     | _ :: _ ->
+       let nm = names a tied in
+       let tied_cids = map (fun c0 -> c0.cid) tied in
+       let stages = rev0 (firstn (Z.to_nat s.round) s.rounds) in
+       (match scot_search a is_defeat tied_cids stages with
+        | Some cn0 ->
+          ((log TTie
+             ((^) "Break tie by prior stage ("
+               ((^) reason ((^) "): [" ((^) nm ((^) "] -> " cn0.cname))))) s),
+            (Some cn0.cid))
+        | None ->
+          (match by_tie a tied with
+           | [] -> ((set_crash a s IndexError), None)
+           | c0 :: _ ->
+             ((log TTie
+                ((^) "Break tie by lot ("
+                  ((^) reason ((^) "): [" ((^) nm ((^) "] -> " c0.cname)))))
+                s), (Some c0.cid))))))
+
+(** val cand_surplus : arith -> est -> cand -> t **)
+
+let cand_surplus a =
+  let v2 = v0 a in
+  (fun s c -> let d = a.sub0 c.cvote s.quota in if a.ltv d v2 then v2 else d)
+
+(** val scotland : arith -> config -> est cmd **)
+
+let scotland a cfg =
+  let log = log_action a cfg in
+  Seq ((Do (fun s ->
+  log TBegin "Begin Count" (start_count a (Ok (integer_droop_quota a cfg)) s))),
+  (Seq ((While ((fun _ -> true), (Seq ((Do
+  (elect_with_quota a cfg (ge_quota a) (fun _ _ -> true) None (fun _ -> true))),
+  (Seq ((Ite ((count_complete a cfg), Break, Skip)), (Seq ((Do
+  (new_round a cfg)), (Seq ((Do (fun s ->
+  set_surplus a s (vsum a (map (cand_surplus a s) (pendings a s))))), (Seq
+  ((Ite ((fun s -> nonempty (pendings a s)), (Seq ((Do
+  (transfer_high_surplus a cfg (scot_break_tie a cfg false "largest surplus")
+    (rew_scot a))), Continue)), Skip)), (Seq ((Ite ((fun s ->
+  nonempty (hopefuls a s)), (Do
+  (defeat_low a cfg (scot_break_tie a cfg true "defeat low candidate")
+    "Defeat low candidate")), Skip)), (Ite ((count_complete a cfg), Break,
+  Skip)))))))))))))))), (Seq ((Do (unpend_all a cfg)), (Seq ((Ite ((fun s ->
+  Z.leb (nlen (hopefuls a s)) (seats_left a cfg s)), (Do (fun s ->
+  fold_left (fun s0 c ->
+    elect a cfg c.cid "Elect remaining candidates" false s0) (hopefuls a s) s)),
+  Skip)), (Do (fun s ->
+  fold_left (fun s0 c -> defeat a cfg c.cid "Defeat remaining candidates" s0)
+    (hopefuls a s) s)))))))))
+
+(** val gt_quota : arith -> est -> cand -> bool **)
+
+let gt_quota a s c =
+  a.gtv c.cvote s.quota
+
+(** val cfer_scan :
+    arith -> config -> est -> t -> z -> cand list -> t -> cand list -> cand
+    list -> cand list -> cand list **)
+
+let cfer_scan a cfg =
+  let v2 = v0 a in
+  let nseats = cfg.cf_nseats in
+  let rec cfer_scan0 s surp nElected all lastv prefix_rev rest best =
+    match rest with
+    | [] -> best
+    | ct :: rest' ->
+      (match rest' with
+       | [] -> best
+       | nextc :: _ ->
+         let trial = rev0 (ct :: prefix_rev) in
+         if Z.ltb (Z.add (nlen rest') nElected) nseats
+         then best
+         else let vds = vsum a (map (fun c -> c.cvote) trial) in
+              if a.gev (a.add0 vds surp) nextc.cvote
+              then cfer_scan0 s surp nElected all lastv (ct :: prefix_rev)
+                     rest' best
+              else let cond =
+                     (||)
+                       ((||)
+                         ((||) (Z.eqb (Z.add nElected (Zpos XH)) nseats)
+                           (Z.eqb
+                             (Z.add (Z.sub (nlen all) (nlen trial)) nElected)
+                             nseats))
+                         (a.ltv (a.add0 vds surp) (a.sub0 s.quota lastv)))
+                       ((&&) (a.eqv surp v2)
+                         (a.ltv (a.sub0 vds ct.cvote) (a.sub0 s.quota lastv)))
+                   in
+                   cfer_scan0 s surp nElected all lastv (ct :: prefix_rev)
+                     rest' (if cond then trial else best))
+  in cfer_scan0
+
+(** val cfer_batch : arith -> config -> est -> cand list **)
+
+let cfer_batch a cfg s =
+  let surp = pending_surplus a s in
+  let cs = by_vote a false (hopefuls a s) in
+  (match rev0 cs with
+   | [] -> []
+   | lastc :: _ ->
+     cfer_scan a cfg s surp (nlen (electeds a s)) cs lastc.cvote [] cs [])
+
+(** val cfer_find_batch : arith -> config -> est -> est **)
+
+let cfer_find_batch a cfg s =
+  set_batch a s
+    (if cfg.cf_batch then map (fun c -> c.cid) (cfer_batch a cfg s) else [])
+
+(** val cfer_transfer_all_pending : arith -> config -> est -> est **)
+
+let cfer_transfer_all_pending a cfg =
+  let log = log_action a cfg in
+  (fun s ->
+  fold_left (fun s0 c ->
+    if crashed a s0
+    then s0
+    else let h = c.cid in
+         let s2 = unpend a cfg h (Some "Transfer surplus") s0 in
+         if crashed a s2
+         then s2
+         else let surp = a.sub0 (cvote_of a s2 h) s2.quota in
+              let s3 =
+                for_ballots a
+                  (reweigh_transfer a (is_hopeful a) (rew_wigm a) h surp)
+                  (top_is a h) s2
+              in
+              if crashed a s3
+              then s3
+              else let s4 = set_vote a h s3.quota s3 in
+                   log TTransfer
+                     ((^) "Surplus transferred: "
+                       ((^) (cname_of a s4 h)
+                         ((^) " (" ((^) (a.str surp) ")")))) s4)
+    (pendings a s) s)
+
+(** val cfer_defeat_low : arith -> config -> est -> est **)
+
+let cfer_defeat_low a cfg s =
+  match low_candidates a s with
+  | Some p ->
+    let (_, lows) = p in
+    let (s1, o) = bt_simple a cfg "defeat" lows s in
+    (match o with
+     | Some l -> set_batch a (defeat a cfg l "Defeat" s1) (l :: [])
+     | None -> s1)
+  | None -> set_crash a s ValueError
+
+(** val cfer : arith -> config -> est cmd **)
+
+let cfer a cfg =
+  let nseats = cfg.cf_nseats in
+  let log = log_action a cfg in
+  Seq ((Do (fun s ->
+  log TBegin "Begin Count" (start_count a (droop_quota_eps a cfg) s))),
+  (While ((fun _ -> true), (Seq ((Do (new_round a cfg)), (Seq ((Ite
+  ((fun s ->
+  (&&) (Z.eqb s.round (Zpos XH)) (Z.leb (nlen (hopefuls a s)) nseats)), (Seq
+  ((Do (fun s ->
+  fold_left (fun s0 c -> elect a cfg c.cid "Elect all" false s0)
+    (hopefuls a s) s)), Break)), Skip)), (Seq ((Do
+  (elect_with_quota a cfg (ge_quota a) (gt_quota a) None (fun _ -> true))),
+  (Seq ((Ite ((fun s -> Z.leb nseats (nlen (electeds a s))), (Seq ((Do
+  (unpend_all a cfg)), (Seq ((Do (fun s ->
+  fold_left (fun s0 c -> defeat a cfg c.cid "Defeat remaining" s0)
+    (hopefuls a s) s)), Break)))), Skip)), (Seq ((Do
+  (cfer_find_batch a cfg)), (Seq ((Ite ((fun s -> nonempty s.lv_batch), (Do
+  (defeat_batch_in_ballot_order a cfg "Defeat batch")), (Ite ((fun s ->
+  nonempty (pendings a s)), (Do (cfer_transfer_all_pending a cfg)), (Do
+  (cfer_defeat_low a cfg)))))), (Ite ((fun s -> nonempty s.lv_batch), (Seq
+  ((Ite ((fun s ->
+  Z.leb (Z.add (nlen (hopefuls a s)) (nlen (electeds a s))) nseats), (Seq
+  ((Do (fun s ->
+  fold_left (fun s0 c -> elect a cfg c.cid "Elect pending" false s0)
+    (pendings a s) s)), (Seq ((Do (fun s ->
+  fold_left (fun s0 c -> elect a cfg c.cid "Elect remaining" false s0)
+    (hopefuls a s) s)), Break)))), Skip)), (Do
+  (transfer_batch a cfg (is_hopeful a))))), Skip)))))))))))))))))
+
+(** val mpls_keep : arith -> cand -> bool **)
+
+let mpls_keep a c =
+  (||) (is_hopeful a c) (is_pending a c)
+
+(** val mpls_surplus : arith -> bool -> est -> t **)
+
+let mpls_surplus a only_declared s =
+  vsum a
+    (map (cand_surplus a s)
+      (filter (fun c -> negb ((&&) only_declared c.cundecl)) s.cands))
+
+(** val hopeful_with_quota : arith -> bool -> est -> cand list **)
+
+let hopeful_with_quota a declared_only s =
+  filter (fun c ->
+    (&&) (negb ((&&) declared_only c.cundecl)) (ge_quota a s c))
+    (by_vote a true (hopefuls a s))
+
+(** val mpls_scan :
+    arith -> t -> z -> cand list -> t -> cand list -> cand list -> cand list **)
+
+let rec mpls_scan a surp maxDefeat l vote maybe_rev losers =
+  match l with
+  | [] -> losers
+  | c :: t0 ->
+    (match t0 with
+     | [] -> losers
+     | nxt :: _ ->
+       let maybe_rev' = c :: maybe_rev in
+       if Z.ltb maxDefeat (nlen maybe_rev')
+       then losers
+       else let vote' = a.add0 vote c.cvote in
+            mpls_scan a surp maxDefeat t0 vote' maybe_rev'
+              (if a.ltv (a.add0 vote' surp) nxt.cvote
+               then rev0 maybe_rev'
+               else losers))
+
+(** val find_certain_losers : arith -> config -> t -> est -> cand list **)
+
+let find_certain_losers a cfg =
+  let v2 = v0 a in
+  (fun surp s ->
+  let sorted = by_vote a false (hopefuls a s) in
+  by_order a
+    (mpls_scan a surp (Z.sub (nlen (hopefuls a s)) (seats_left a cfg s))
+      sorted v2 [] []))
+
+(** val ballot_top_undeclared : arith -> est -> ballot -> bool option **)
+
+let ballot_top_undeclared a s b =
+  match top_rank a b with
+  | Some c ->
+    (match find_cand a s.cands c with
+     | Some x -> Some x.cundecl
+     | None -> None)
+  | None -> None
+
+(** val mpls_find_defeats : arith -> config -> est -> est **)
+
+let mpls_find_defeats a cfg =
+  let v2 = v0 a in
+  (fun s ->
+  let und =
+    if Z.eqb s.round (Zpos (XO XH))
+    then filter (fun c -> c.cundecl) (hopefuls a s)
+    else []
+  in
+  let uv =
+    if Z.eqb s.round (Zpos (XO XH))
+    then fold_left (fun acc b ->
+           match acc with
+           | Ok v ->
+             (match ballot_top_undeclared a s b with
+              | Some b0 -> if b0 then Ok (a.add0 v (bvote a b)) else Ok v
+              | None -> Raise AttributeError)
+           | Raise e -> Raise e) s.ballots (Ok v2)
+    else Ok v2
+  in
+  (match uv with
+   | Ok uv0 ->
+     let losers =
+       find_certain_losers a cfg
+         (if Z.eqb s.round (Zpos (XO XH))
+          then a.add0 s.surplus uv0
+          else s.surplus) s
+     in
+     set_batch a s (map (fun c -> c.cid) (app und losers))
+   | Raise e -> set_crash a s e))
+
+(** val mpls_defeat_batch : arith -> config -> est -> est **)
+
+let mpls_defeat_batch a cfg =
+  let v2 = v0 a in
+  let log = log_action a cfg in
+  (fun s ->
+  let cs = cands_of a s s.lv_batch in
+  let s1 =
+    fold_left (fun s0 c ->
+      defeat a cfg c.cid
+        (if c.cundecl
+         then "Defeat undeclared write-in"
+         else "Defeat certain loser") s0) cs s
+  in
+  let s2 = for_ballots a (transfer a (mpls_keep a)) (top_in a s.lv_batch) s1
+  in
+  let s3 = fold_left (fun s0 i -> set_vote a i v2 s0) s.lv_batch s2 in
+  let s4 = set_surplus a s3 (mpls_surplus a false s3) in
+  log TTransfer
+    ((^) "Transfer defeated: " (names a (cands_of a s4 s.lv_batch))) s4)
+
+(** val mpls_elect_high : arith -> config -> est -> est **)
+
+let mpls_elect_high a cfg =
+  let log = log_action a cfg in
+  (fun s ->
+  let hq = hopeful_with_quota a false s in
+  (match max_vote a hq with
+   | Some hv ->
+     let highs = filter (fun c -> a.eqv c.cvote hv) hq in
+     let (s1, o) = bt_simple a cfg "largest surplus" highs s in
+     (match o with
+      | Some h ->
+        let s2 = elect a cfg h "Elect" false s1 in
+        if crashed a s2
+        then s2
+        else let surp = a.sub0 (cvote_of a s2 h) s2.quota in
+             let s3 =
+               for_ballots a
+                 (reweigh_transfer a (mpls_keep a) (rew_wigm a) h surp)
+                 (top_is a h) s2
+             in
+             if crashed a s3
+             then s3
+             else let s4 = set_vote a h s3.quota s3 in
+                  let s5 = set_surplus a s4 (mpls_surplus a false s4) in
+                  log TTransfer
+                    ((^) "Transfer surplus: "
+                      ((^) (cname_of a s5 h)
+                        ((^) " (" ((^) (a.str surp) ")")))) s5
+      | None -> s1)
+   | None -> set_crash a s ValueError))
+
+(** val mpls_defeat_low : arith -> config -> est -> est **)
+
+let mpls_defeat_low a cfg =
+  let v2 = v0 a in
+  let log = log_action a cfg in
+  (fun s ->
+  match low_candidates a s with
+  | Some p ->
+    let (_, lows) = p in
+    let (s1, o) = bt_simple a cfg "defeat low candidate" lows s in
+    (match o with
+     | Some l ->
+       let s2 = defeat a cfg l "Defeat low candidate" s1 in
+       if crashed a s2
+       then s2
+       else if Z.ltb (seats_left a cfg s2) (nlen (hopefuls a s2))
+            then let s3 =
+                   for_ballots a (transfer a (mpls_keep a)) (top_is a l) s2
+                 in
+                 let s4 = set_vote a l v2 s3 in
+                 let s5 = set_surplus a s4 (mpls_surplus a false s4) in
+                 log TTransfer ((^) "Transfer defeated: " (cname_of a s5 l))
+                   s5
+            else s2
+     | None -> s1)
+  | None -> set_crash a s ValueError)
+
+(** val mpls : arith -> config -> est cmd **)
+
+let mpls a cfg =
+  let nseats = cfg.cf_nseats in
+  let log = log_action a cfg in
+  Seq ((Do (fun s ->
+  new_round a cfg (start_count a (Ok (integer_droop_quota a cfg)) s))), (Seq
+  ((While ((fun _ -> true), (Seq ((Do (fun s ->
+  log TCount "Count Votes" (set_surplus a s (mpls_surplus a true s)))), (Seq
+  ((Ite ((fun s ->
+  Z.leb nseats
+    (Z.add (nlen (electeds a s)) (nlen (hopeful_with_quota a true s)))), (Seq
+  ((Do (fun s ->
+  fold_left (fun s0 c -> elect a cfg c.cid "Candidate at threshold" false s0)
+    (hopeful_with_quota a true s) s)), Break)), Skip)), (Seq ((Do
+  (new_round a cfg)), (Seq ((Do (mpls_find_defeats a cfg)), (Seq ((Ite
+  ((fun s -> nonempty s.lv_batch), (Seq ((Do (mpls_defeat_batch a cfg)),
+  Continue)), Skip)), (Seq ((Ite ((fun s ->
+  nonempty (hopeful_with_quota a false s)), (Seq ((Do
+  (mpls_elect_high a cfg)), Continue)), Skip)), (Seq ((Ite ((fun s ->
+  Z.ltb (seats_left a cfg s) (nlen (hopefuls a s))), (Do
+  (mpls_defeat_low a cfg)), Skip)), (Ite ((fun s ->
+  Z.leb (nlen (hopefuls a s)) (seats_left a cfg s)), Break,
+  Skip)))))))))))))))))), (Seq ((Ite ((fun s ->
+  Z.leb (nlen (hopefuls a s)) (seats_left a cfg s)), (Do (fun s ->
+  fold_left (fun s0 c ->
+    elect a cfg c.cid "Elect remaining candidates" false s0) (hopefuls a s) s)),
+  Skip)), (Ite ((fun s -> nonempty (hopefuls a s)), (Do (fun s ->
+  fold_left (fun s0 c -> defeat a cfg c.cid "Defeat remaining candidates" s0)
+    (hopefuls a s) s)), Skip)))))))
+
+(** val nonempty' : 'a1 list -> bool **)
+
+let nonempty' = function
+| [] -> false
+| _ :: _ -> true
+
+(** val iS_none : z **)
+
+let iS_none =
+  Z0
+
+(** val iS_omega : z **)
+
+let iS_omega =
+  Zpos XH
+
+(** val iS_batch : z **)
+
+let iS_batch =
+  Zpos (XO XH)
+
+(** val iS_elected : z **)
+
+let iS_elected =
+  Zpos (XI XH)
+
+(** val iS_stable : z **)
+
+let iS_stable =
+  Zpos (XO (XO XH))
+
+(** val iS_iterate : z **)
+
+let iS_iterate =
+  Zpos (XI (XO XH))
+
+(** val status_name : z -> string **)
+
+let status_name z0 =
+  if Z.eqb z0 (Zpos XH)
+  then "omega"
+  else if Z.eqb z0 (Zpos (XO XH))
+       then "batch"
+       else if Z.eqb z0 (Zpos (XI XH))
+            then "elected"
+            else if Z.eqb z0 (Zpos (XO (XO XH)))
+                 then "stable"
+                 else if Z.eqb z0 (Zpos (XI (XO XH)))
+                      then "iterate"
+                      else "none"
+
+(** val count_complete_m : arith -> config -> est -> bool **)
+
+let count_complete_m a cfg s =
+  (||) (Z.leb (nlen (hopefuls a s)) (seats_left a cfg s))
+    (Z.leb (seats_left a cfg s) Z0)
+
+(** val omega : arith -> config -> t res **)
+
+let omega a cfg =
+  let v2 = v1 a in
+  a.divv v2 (a.of_int (Z.pow (Zpos (XO (XI (XO XH)))) cfg.cf_omega10))
+
+(** val omega_or0 : arith -> config -> t **)
+
+let omega_or0 a cfg =
+  let v2 = v0 a in (match omega a cfg with
+                    | Ok o -> o
+                    | Raise _ -> v2)
+
+(** val kf_truthy : arith -> cand -> bool **)
+
+let kf_truthy a c =
+  match c.ckf with
+  | Some k -> a.truth k
+  | None -> false
+
+(** val kf_of : arith -> cand -> t **)
+
+let kf_of a =
+  let v2 = v0 a in (fun c -> match c.ckf with
+                             | Some k -> k
+                             | None -> v2)
+
+(** val he_cands : arith -> est -> cand list **)
+
+let he_cands a s =
+  app (hopefuls a s) (electeds a s)
+
+(** val zero_he_votes : arith -> est -> est **)
+
+let zero_he_votes a =
+  let v2 = v0 a in
+  (fun s ->
+  set_cands a s
+    (map (fun c ->
+      if (||) (in_state a Hopeful c) (in_state a Elected c)
+      then with_vote a c v2
+      else c) s.cands))
+
+(** val kw_warren : arith -> t -> t -> t * t **)
+
+let kw_warren a kf w =
+  let keep = if a.ltv kf w then kf else w in (keep, (a.sub0 w keep))
+
+(** val kw_meek : arith -> t -> t -> t * t **)
+
+let kw_meek a =
+  let v2 = v1 a in
+  (fun kf w -> ((a.kmul w kf RDown), (a.kmul w (a.sub0 v2 kf) RDown)))
+
+(** val kt : arith -> config -> t -> t -> t * t **)
+
+let kt a cfg kf w =
+  if cfg.cf_warren then kw_warren a kf w else kw_meek a kf w
+
+(** val dist_ballot :
+    arith -> config -> cand list -> t -> z list -> t -> t -> (cand
+    list * t) * t **)
+
+let dist_ballot a cfg =
+  let v2 = v0 a in
+  let rec dist_ballot0 cs mult r w bres0 =
+    match r with
+    | [] -> ((cs, w), bres0)
+    | i :: t0 ->
+      (match find_cand a cs i with
+       | Some c ->
+         if kf_truthy a c
+         then let (keep, w') = kt a cfg (kf_of a c) w in
+              let kv = a.mulv keep mult in
+              let cs' =
+                upd_cand a i (fun c0 -> with_vote a c0 (a.add0 c0.cvote kv))
+                  cs
+              in
+              let bres' = a.sub0 bres0 kv in
+              if a.lev w' v2
+              then ((cs', w'), bres')
+              else dist_ballot0 cs' mult t0 w' bres'
+         else dist_ballot0 cs mult t0 w bres0
+       | None -> dist_ballot0 cs mult t0 w bres0)
+  in dist_ballot0
+
+(** val dist_eq :
+    arith -> config -> z list -> t -> z list list -> t -> (cand list * t) res
+    -> (cand list * t) res **)
+
+let rec dist_eq a cfg cset mult ranks w st = match st with
+| Ok _ ->
+  if negb (a.truth w)
+  then st
+  else (match ranks with
+        | [] -> st
+        | rank :: deeper ->
+          let cids = filter (fun i -> existsb (Z.eqb i) cset) rank in
+          (match cids with
+           | [] -> st
+           | _ :: _ ->
+             (match a.divv w (a.of_int (nlen cids)) with
+              | Ok cw ->
+                fold_left (fun st0 i ->
+                  match st0 with
+                  | Ok a0 ->
+                    let (cs, bres0) = a0 in
+                    (match find_cand a cs i with
+                     | Some c ->
+                       let (keep, w') = kt a cfg (kf_of a c) cw in
+                       let kv = a.mulv keep mult in
+                       let cs' =
+                         upd_cand a i (fun c0 ->
+                           with_vote a c0 (a.add0 c0.cvote kv)) cs
+                       in
+                       dist_eq a cfg cset mult deeper w' (Ok (cs',
+                         (a.sub0 bres0 kv)))
+                     | None -> Raise KeyError)
+                  | Raise e -> Raise e) cids st
+              | Raise e -> Raise e)))
+| Raise e -> Raise e
+
+(** val distribute_votes : arith -> config -> est -> est **)
+
+let distribute_votes a cfg =
+  let v2 = v0 a in
+  let v3 = v1 a in
+  (fun s ->
+  let s0 = set_residual a (zero_he_votes a s) v2 in
+  let (p, bs_rev) =
+    fold_left (fun pat b ->
+      let (y, acc) = pat in
+      let (cs, res_) = y in
+      let (p, br') = dist_ballot a cfg cs b.bmult b.brank v3 b.bmult in
+      let (cs', w') = p in
+      ((cs', (a.add0 res_ br')),
+      ((with_bres a (with_bweight a b w') br') :: acc))) s0.ballots
+      ((s0.cands, v2), [])
+  in
+  let (cs, res_) = p in
+  let s1 =
+    set_ballots a (set_residual a (set_cands a s0 cs) res_) (rev0 bs_rev)
+  in
+  fold_left (fun s2 eb ->
+    if crashed a s2
+    then s2
+    else let cset = map (fun c -> c.cid) (he_cands a s2) in
+         (match dist_eq a cfg cset eb.emult eb.erank v3 (Ok (s2.cands,
+                  eb.emult)) with
+          | Ok a0 ->
+            let (cs0, br) = a0 in
+            set_residual a (set_cands a s2 cs0) (a.add0 s2.residual br)
+          | Raise e -> set_crash a s2 e)) s1.eballots s1)
+
+(** val meek_quota : arith -> config -> est -> t res **)
+
+let meek_quota a cfg =
+  let nseats = cfg.cf_nseats in
+  (fun s ->
+  match a.divv s.votes (a.of_int (Z.add nseats (Zpos XH))) with
+  | Ok q0 -> Ok (if a.exact then q0 else a.add0 q0 a.epsilon)
+  | Raise e -> Raise e)
+
+(** val set_quota_r : arith -> est -> t res -> est **)
+
+let set_quota_r a s = function
+| Ok q1 -> set_quota a s q1
+| Raise e -> set_crash a s e
+
+(** val elected_surplus : arith -> est -> t **)
+
+let elected_surplus a s =
+  vsum a (map (fun c -> a.sub0 c.cvote s.quota) (electeds a s))
+
+(** val update_kfs : arith -> est -> est **)
+
+let update_kfs a s =
+  fold_left (fun s0 c ->
+    if crashed a s0
+    then s0
+    else (match a.kdiv (a.kmul (kf_of a c) s0.quota RUp) c.cvote RUp with
+          | Ok k -> upd a s0 c.cid (fun c0 -> with_kf a c0 (Some k))
+          | Raise e -> set_crash a s0 e)) (electeds a s) s
+
+(** val meek_iter_head : arith -> config -> est -> est **)
+
+let meek_iter_head a cfg s =
+  let s1 = distribute_votes a cfg s in
+  if crashed a s1
+  then s1
+  else let s2 =
+         set_votes a s1 (vsum a (map (fun c -> c.cvote) (he_cands a s1)))
+       in
+       let s3 = set_quota_r a s2 (meek_quota a cfg s2) in
+       if crashed a s3
+       then s3
+       else let winners = filter (has_quota_exact a s3) (hopefuls a s3) in
+            let s4 =
+              fold_left (fun s0 c ->
+                set_status a (elect a cfg c.cid "Elect" false s0) iS_elected)
+                winners s3
+            in
+            set_surplus a s4 (elected_surplus a s4)
+
+(** val meek_iterate : arith -> config -> est cmd **)
+
+let meek_iterate a cfg =
+  let nballots = cfg.cf_nballots in
+  Seq ((Do (fun s ->
+  set_batch a (set_last a (set_status a s iS_none) (a.of_int nballots)) [])),
+  (While ((fun _ -> true), (Seq ((Do (meek_iter_head a cfg)), (Seq ((Ite
+  ((fun s -> Z.eqb s.lv_status iS_elected), Break, Skip)), (Seq ((Ite
+  ((fun s -> a.lev s.surplus (omega_or0 a cfg)), (Seq ((Do (fun s ->
+  set_status a s iS_omega)), Break)), Skip)), (Seq ((Ite ((fun s ->
+  a.gev s.surplus s.lv_last), (Seq ((Do (fun s ->
+  set_status a
+    (log_msg a cfg
+      ((^) "Stable state detected (" ((^) (a.str s.surplus) ")")) s) iS_stable)),
+  Break)), Skip)), (Seq ((Do (fun s ->
+  set_batch a s
+    (if cfg.cf_batch
+     then map (fun c -> c.cid) (batch_defeat a cfg s.surplus s)
+     else []))), (Seq ((Ite ((fun s -> nonempty' s.lv_batch), (Seq ((Do
+  (fun s -> set_status a s iS_batch)), Break)), Skip)), (Do (fun s ->
+  update_kfs a (set_last a s s.surplus))))))))))))))))))
+
+(** val zero_cand : arith -> z -> est -> est **)
+
+let zero_cand a =
+  let v2 = v0 a in
+  (fun i s -> upd a s i (fun c -> with_vote a (with_kf a c (Some v2)) v2))
+
+(** val cands_of' : arith -> est -> z list -> cand list **)
+
+let cands_of' a s cids =
+  flat_map (fun i ->
+    match find_cand a s.cands i with
+    | Some c -> c :: []
+    | None -> []) cids
+
+(** val meek_defeat_batch : arith -> config -> est -> est **)
+
+let meek_defeat_batch a cfg s =
+  fold_left (fun s0 c ->
+    if crashed a s0
+    then s0
+    else distribute_votes a cfg
+           (zero_cand a c.cid (defeat a cfg c.cid "Defeat certain loser" s0)))
+    (by_order a (cands_of' a s s.lv_batch)) s
+
+(** val low_within_surplus : arith -> est -> cand list res **)
+
+let low_within_surplus a s =
+  match a.vmin (map (fun c -> c.cvote) (hopefuls a s)) with
+  | Ok lv ->
+    Ok (filter (fun c -> a.gev (a.add0 lv s.surplus) c.cvote) (hopefuls a s))
+  | Raise e -> Raise e
+
+(** val meek_defeat_low :
+    arith -> config -> (string -> string -> string) -> bool -> est -> est **)
+
+let meek_defeat_low a cfg tiefmt redistribute s =
+  match low_within_surplus a s with
+  | Ok lows ->
+    let (s1, o) = break_tie a cfg tiefmt lows s in
+    (match o with
+     | Some l ->
+       let msg =
+         if Z.eqb s1.lv_status iS_omega
+         then (^) "Defeat (surplus " ((^) (a.str s1.surplus) " < omega)")
+         else (^) "Defeat (stable surplus " ((^) (a.str s1.surplus) ")")
+       in
+       let s2 = zero_cand a l (defeat a cfg l msg s1) in
+       if crashed a s2
+       then s2
+       else if redistribute then distribute_votes a cfg s2 else s2
+     | None -> s1)
+  | Raise e -> set_crash a s e
+
+(** val meek_final : arith -> config -> bool -> est -> est **)
+
+let meek_final a cfg =
+  let nseats = cfg.cf_nseats in
+  let nballots = cfg.cf_nballots in
+  (fun redistribute s ->
+  let s1 =
+    fold_left (fun s0 c ->
+      if crashed a s0
+      then s0
+      else let s' =
+             if Z.ltb (nlen (electeds a s0)) nseats
+             then elect a cfg c.cid "Elect remaining" false s0
+             else zero_cand a c.cid (defeat a cfg c.cid "Defeat remaining" s0)
+           in
+           if redistribute then distribute_votes a cfg s' else s')
+      (hopefuls a s) s
+  in
+  let s2 = set_votes a s1 (vsum a (map (fun c -> c.cvote) (electeds a s1))) in
+  set_residual a s2 (a.sub0 (a.of_int nballots) s2.votes))
+
+(** val init_kfs : arith -> est -> est **)
+
+let init_kfs a =
+  let v2 = v1 a in
+  (fun s ->
+  set_cands a s
+    (map (fun c -> if in_state a Hopeful c then with_kf a c (Some v2) else c)
+      s.cands))
+
+(** val meek_first_prefs : arith -> est -> est **)
+
+let meek_first_prefs a =
+  let v2 = v1 a in
+  (fun s ->
+  let s1 =
+    fold_left (fun s0 b ->
+      match top_rank a b with
+      | Some c -> add_vote a c b.bmult s0
+      | None -> s0) s.ballots s
+  in
+  fold_left (fun s0 eb ->
+    if crashed a s0
+    then s0
+    else (match eb.erank with
+          | [] -> set_crash a s0 AttributeError
+          | top :: _ ->
+            (match a.floordivv v2 (a.of_int (nlen top)) with
+             | Ok q0 ->
+               let v = a.mulv q0 eb.emult in
+               fold_left (fun s2 i -> add_vote a i v s2) top s0
+             | Raise e -> set_crash a s0 e))) s1.eballots s1)
+
+(** val meek : arith -> config -> est cmd **)
+
+let meek a cfg =
+  let nballots = cfg.cf_nballots in
+  let log = log_action a cfg in
+  Seq ((Do (fun s ->
+  match omega a cfg with
+  | Ok _ ->
+    let s1 = set_votes a s (a.of_int nballots) in
+    let s2 = set_quota_r a s1 (meek_quota a cfg s1) in
+    if crashed a s2
+    then s2
+    else log TBegin "Begin Count" (meek_first_prefs a (init_kfs a s2))
+  | Raise e -> set_crash a s e)), (Seq ((While ((fun s ->
+  negb (count_complete_m a cfg s)), (Seq ((Do (new_round a cfg)), (Seq
+  ((meek_iterate a cfg), (Seq ((Do (fun s ->
+  log TIterate ((^) "Iterate (" ((^) (status_name s.lv_status) ")")) s)),
+  (Seq ((Ite ((fun s -> Z.eqb s.lv_status iS_elected), Continue, Skip)), (Seq
+  ((Ite ((fun s -> Z.eqb s.lv_status iS_batch), (Seq ((Do
+  (meek_defeat_batch a cfg)), Continue)), Skip)), (Ite ((fun s ->
+  nonempty' (hopefuls a s)), (Do
+  (meek_defeat_low a cfg (tie_fmt "defeat") true)), Skip)))))))))))))), (Do
+  (meek_final a cfg true)))))
+
+(** val dist_ballot_prf :
+    arith -> cand list -> t -> z list -> t -> t -> (cand list * t) * t **)
+
+let dist_ballot_prf a =
+  let v2 = v0 a in
+  let rec dist_ballot_prf0 cs mult r w bres0 =
+    match r with
+    | [] -> ((cs, w), bres0)
+    | i :: t0 ->
+      (match find_cand a cs i with
+       | Some c ->
+         if kf_truthy a c
+         then let kw = a.kmul w (kf_of a c) RUp in
+              let kv = a.mulv kw mult in
+              let cs' =
+                upd_cand a i (fun c0 -> with_vote a c0 (a.add0 c0.cvote kv))
+                  cs
+              in
+              let w' = a.sub0 w kw in
+              let bres' = a.sub0 bres0 kv in
+              if a.lev w' v2
+              then ((cs', w'), bres')
+              else dist_ballot_prf0 cs' mult t0 w' bres'
+         else dist_ballot_prf0 cs mult t0 w bres0
+       | None -> dist_ballot_prf0 cs mult t0 w bres0)
+  in dist_ballot_prf0
+
+(** val prf_distribute : arith -> est -> est **)
+
+let prf_distribute a =
+  let v2 = v0 a in
+  let v3 = v1 a in
+  (fun s ->
+  let s0 = set_residual a (zero_he_votes a s) v2 in
+  let (p, bs_rev) =
+    fold_left (fun pat b ->
+      let (y, acc) = pat in
+      let (cs, res_) = y in
+      let (p, br') = dist_ballot_prf a cs b.bmult b.brank v3 b.bmult in
+      let (cs', w') = p in
+      ((cs', (a.add0 res_ br')),
+      ((with_bres a (with_bweight a b w') br') :: acc))) s0.ballots
+      ((s0.cands, v2), [])
+  in
+  let (cs, res_) = p in
+  set_ballots a (set_residual a (set_cands a s0 cs) res_) (rev0 bs_rev))
+
+(** val prf_quota : arith -> config -> est -> t res **)
+
+let prf_quota a cfg =
+  let nseats = cfg.cf_nseats in
+  (fun s ->
+  match a.floordivv s.votes (a.of_int (Z.add nseats (Zpos XH))) with
+  | Ok q0 -> Ok (a.add0 q0 a.epsilon)
+  | Raise e -> Raise e)
+
+(** val prf_iterate_step : arith -> config -> est -> est **)
+
+let prf_iterate_step a cfg =
+  let v2 = v0 a in
+  (fun s ->
+  let s1 = prf_distribute a s in
+  let s2 = set_votes a s1 (vsum a (map (fun c -> c.cvote) (he_cands a s1))) in
+  let s3 = set_quota_r a s2 (prf_quota a cfg s2) in
+  if crashed a s3
+  then s3
+  else let winners = filter (ge_quota a s3) (hopefuls a s3) in
+       let s4 =
+         fold_left (fun s0 c ->
+           set_status a (elect a cfg c.cid "Elect" false s0) iS_elected)
+           winners s3
+       in
+       let sp = elected_surplus a s4 in
+       let s5 = set_surplus a s4 (if a.ltv sp v2 then v2 else sp) in
+       let s6 =
+         if Z.eqb s5.lv_status iS_elected
+         then s5
+         else if a.ltv s5.surplus (omega_or0 a cfg)
+              then set_status a s5 iS_omega
+              else if a.gev s5.surplus s5.lv_last
+                   then log_msg a cfg
+                          ((^) "Stable state detected ("
+                            ((^) (a.str s5.surplus) ")"))
+                          (set_status a s5 iS_stable)
+                   else s5
+       in
+       if Z.eqb s6.lv_status iS_iterate
+       then update_kfs a (set_last a s6 s6.surplus)
+       else s6)
+
+(** val meek_prf : arith -> config -> est cmd **)
+
+let meek_prf a cfg =
+  let nseats = cfg.cf_nseats in
+  let nballots = cfg.cf_nballots in
+  let log = log_action a cfg in
+  Seq ((Do (fun s ->
+  match omega a cfg with
+  | Ok _ ->
+    let s0 = init_kfs a s in
+    let s1 = set_votes a s0 (a.of_int nballots) in
+    (match a.divv s1.votes (a.of_int (Z.add nseats (Zpos XH))) with
+     | Ok q0 ->
+       let s2 = set_quota a s1 (a.add0 q0 a.epsilon) in
+       let s3 =
+         fold_left (fun s3 b ->
+           match top_rank a b with
+           | Some c -> add_vote a c b.bmult s3
+           | None -> set_crash a s3 AttributeError) s2.ballots s2
+       in
+       log TBegin "Begin Count" s3
+     | Raise e -> set_crash a s1 e)
+  | Raise e -> set_crash a s e)), (Seq ((While ((fun s ->
+  (&&) (Z.ltb (seats_left a cfg s) (nlen (hopefuls a s)))
+    (Z.ltb Z0 (seats_left a cfg s))), (Seq ((Do (new_round a cfg)), (Seq ((Do
+  (fun s -> set_last a (set_status a s iS_iterate) (a.of_int nballots))),
+  (Seq ((While ((fun s -> Z.eqb s.lv_status iS_iterate), (Do
+  (prf_iterate_step a cfg)))), (Seq ((Ite ((fun s ->
+  Z.eqb s.lv_status iS_elected), Continue, Skip)), (Ite ((fun s ->
+  nonempty' (hopefuls a s)), (Do
+  (meek_defeat_low a cfg (fun nm t0 ->
+    (^) "Break tie (defeat low candidate): [" ((^) nm ((^) "] -> " t0)))
+    false)), Skip)))))))))))), (Do (meek_final a cfg false)))))
+
+(** val qpq_quota : arith -> config -> est -> t res **)
+
+let qpq_quota a cfg =
+  let nseats = cfg.cf_nseats in
+  (fun s ->
+  a.divv s.lv_va (a.sub0 (a.of_int (Z.add (Zpos XH) nseats)) s.lv_tx))
+
+(** val count_complete_q : arith -> config -> est -> bool **)
+
+let count_complete_q a cfg s =
+  (||) (Z.leb (seats_left a cfg s) Z0)
+    (Z.leb (nlen (hopefuls a s)) (seats_left a cfg s))
+
+(** val qpq_advance : arith -> est -> ballot -> ballot **)
+
+let qpq_advance a s b =
+  with_bidx a b
+    (advance_from (cont_pred a (is_hopeful a) s) (skipn b.bidx b.brank)
+      b.bidx)
+
+(** val qpq_restart : arith -> est -> est **)
+
+let qpq_restart a =
+  let v2 = v0 a in
+  (fun s ->
+  let s1 = fold_left (fun s0 c -> unelect a c.cid s0) (electeds a s) s in
+  set_ballots a s1
+    (map (fun b ->
+      qpq_advance a s1 (with_bres a (with_bweight a (with_bidx a b O) v2) v2))
+      s1.ballots))
+
+(** val qpq_tally : arith -> config -> est -> est **)
+
+let qpq_tally a cfg =
+  let v2 = v0 a in
+  let v3 = v1 a in
+  (fun s ->
+  let s0 = set_txva a s v2 v2 in
+  let s1 =
+    set_cands a s0
+      (map (fun c ->
+        if in_state a Hopeful c then with_tc a (with_vote a c v2) v2 else c)
+        s0.cands)
+  in
+  let s2 =
+    fold_left (fun s2 b ->
+      if b_exhausted a b
+      then set_txva a s2 (a.add0 s2.lv_tx (a.mulv b.bweight b.bmult)) s2.lv_va
+      else let s' = set_txva a s2 s2.lv_tx (a.add0 s2.lv_va b.bmult) in
+           (match top_rank a b with
+            | Some i ->
+              upd a s' i (fun c ->
+                with_vote a
+                  (with_tc a c (a.add0 c.ctc (a.mulv b.bweight b.bmult)))
+                  (a.add0 c.cvote b.bmult))
+            | None -> s')) s1.ballots s1
+  in
+  let s3 =
+    fold_left (fun s3 c ->
+      if crashed a s3
+      then s3
+      else (match a.divv c.cvote (a.add0 v3 c.ctc) with
+            | Ok q0 -> upd a s3 c.cid (fun c0 -> with_quo a c0 (Some q0))
+            | Raise e -> set_crash a s3 e)) (hopefuls a s2) s2
+  in
+  if crashed a s3 then s3 else set_quota_r a s3 (qpq_quota a cfg s3))
+
+(** val quo_of : arith -> cand -> t **)
+
+let quo_of a =
+  let v2 = v0 a in (fun c -> match c.cquo with
+                             | Some q0 -> q0
+                             | None -> v2)
+
+(** val max_quo : arith -> cand list -> t option **)
+
+let max_quo a = function
+| [] -> None
+| c :: t0 ->
+  Some
+    (fold_left (fun m y -> if a.gtv (quo_of a y) m then quo_of a y else m) t0
+      (quo_of a c))
+
+(** val min_quo : arith -> cand list -> t option **)
+
+let min_quo a = function
+| [] -> None
+| c :: t0 ->
+  Some
+    (fold_left (fun m y -> if a.ltv (quo_of a y) m then quo_of a y else m) t0
+      (quo_of a c))
+
+(** val qpq_tie : string -> string -> string -> string **)
+
+let qpq_tie reason nm t0 =
+  (^) "Break tie by lot (" ((^) reason ((^) "): [" ((^) nm ((^) "] -> " t0))))
+
+(** val qpq_step : arith -> config -> est -> est **)
+
+let qpq_step a cfg =
+  let v2 = v0 a in
+  let v3 = v1 a in
+  let log = log_action a cfg in
+  (fun s ->
+  match max_quo a (hopefuls a s) with
+  | Some hq ->
+    if a.gtv hq s.quota
+    then let highs = filter (fun c -> a.eqv (quo_of a c) hq) (hopefuls a s) in
+         let (s1, o) = break_tie a cfg (qpq_tie "largest quotient") highs s in
+         (match o with
+          | Some h ->
+            let s2 = elect a cfg h "Elect high quotient" false s1 in
+            if crashed a s2
+            then s2
+            else (match a.divv v3
+                          (match find_cand a s2.cands h with
+                           | Some c -> quo_of a c
+                           | None -> v2) with
+                  | Ok nw ->
+                    let s3 =
+                      set_ballots a s2
+                        (map (fun b ->
+                          if top_is a h b
+                          then qpq_advance a s2 (with_bweight a b nw)
+                          else b) s2.ballots)
+                    in
+                    log TTransfer
+                      ((^) "Transfer elected: "
+                        ((^) (cname_of a s3 h)
+                          ((^) " (" ((^) (a.str hq) ")")))) s3
+                  | Raise e -> set_crash a s2 e)
+          | None -> s1)
+    else (match min_quo a (hopefuls a s) with
+          | Some lq ->
+            let lows = filter (fun c -> a.eqv (quo_of a c) lq) (hopefuls a s)
+            in
+            let (s1, o) = break_tie a cfg (qpq_tie "smallest quotient") lows s
+            in
+            (match o with
+             | Some l ->
+               let s2 = defeat a cfg l "Defeat low quotient" s1 in
+               if crashed a s2
+               then s2
+               else let s3 =
+                      set_ballots a s2
+                        (map (fun b ->
+                          if top_is a l b then qpq_advance a s2 b else b)
+                          s2.ballots)
+                    in
+                    set_flag a
+                      (log TTransfer
+                        ((^) "Transfer defeated: " (cname_of a s3 l)) s3) true
+             | None -> s1)
+          | None -> set_crash a s ValueError)
+  | None -> set_crash a s ValueError)
+
+(** val qpq : arith -> config -> est cmd **)
+
+let qpq a cfg =
+  let v2 = v0 a in
+  let log = log_action a cfg in
+  Seq ((Do (fun s ->
+  let s1 =
+    set_cands a s
+      (map (fun c ->
+        if in_state a Hopeful c
+        then with_quo a (with_tc a c v2) (Some v2)
+        else c) s.cands)
+  in
+  let va =
+    vsum a
+      (map (fun b -> b.bmult)
+        (filter (fun b -> negb (b_exhausted a b)) s1.ballots))
+  in
+  let s2 = set_txva a s1 v2 va in
+  let s3 = set_quota_r a s2 (qpq_quota a cfg s2) in
+  if crashed a s3
+  then s3
+  else let s4 =
+         set_ballots a s3 (map (fun b -> with_bweight a b v2) s3.ballots)
+       in
+       log TBegin "Begin Count" (set_flag a s4 true))), (Seq ((While
+  ((fun s -> negb (count_complete_q a cfg s)), (Seq ((Do (new_round a cfg)),
+  (Seq ((Ite ((fun s -> s.lv_flag), (Do (fun s ->
+  qpq_restart a (set_flag a s false))), Skip)), (Seq ((Do (qpq_tally a cfg)),
+  (Do (qpq_step a cfg)))))))))), (Seq ((Ite ((fun s ->
+  Z.leb (nlen (hopefuls a s)) (seats_left a cfg s)), (Do (fun s ->
+  fold_left (fun s0 c ->
+    elect a cfg c.cid "Elect remaining candidates" false s0) (hopefuls a s) s)),
+  Skip)), (Do (fun s ->
+  fold_left (fun s0 c -> defeat a cfg c.cid "Defeat remaining candidates" s0)
+    (hopefuls a s) s)))))))
+
+type pcand = { pc_cid : z; pc_order : z; pc_tie : z; pc_name : string;
+               pc_nick : string; pc_withdrawn : bool; pc_undeclared : 
+               bool }
+
+type profile = { pr_nseats : z; pr_nballots : z; pr_cands : pcand list;
+                 pr_ballots : (z * z list) list;
+                 pr_eballots : (z * z list list) list }
+
+type rule =
+| RWigm
+| RWigmPrf
+| RScotland
+| RCfer
+| RMpls
+| RMeek
+| RMeekPrf
+| RQpq
+
+type outcome =
+| Done of est * bool
+| Crashed of est * exn
+| OutOfFuel
+
+(** val v0' : arith -> t **)
+
+let v0' a =
+  a.of_int Z0
+
+(** val init_cand : arith -> pcand -> cand **)
+
+let init_cand a p =
+  { cid = p.pc_cid; corder = p.pc_order; ctie = p.pc_tie; cname = p.pc_name;
+    cnick = p.pc_nick; cundecl = p.pc_undeclared; cst =
+    (if p.pc_withdrawn then Withdrawn else Hopeful); cpend = None; cvote =
+    (v0' a); ckf = None; cquo = None; ctc = (v0' a) }
+
+(** val init_state : arith -> config -> profile -> est **)
+
+let init_state a cfg pr =
+  let s0 = { cands = []; ballots = []; eballots = []; quota = (v0' a);
+    surplus = (v0' a); votes = (v0' a); exhausted = (v0' a); residual =
+    (v0' a); round = Z0; rounds = []; actions = []; crash = None; lv_flag =
+    false; lv_last = (v0' a); lv_status = Z0; lv_batch = []; lv_tx = 
+    (v0' a); lv_va = (v0' a) }
+  in
+  let s1 =
+    fold_left (fun s p ->
+      let c = init_cand a p in
+      let s' = set_cands a s (app s.cands (c :: [])) in
+      log_msg a cfg
+        ((^)
+          (if p.pc_withdrawn
+           then "Add withdrawn: "
+           else if p.pc_undeclared
+                then "Add undeclared: "
+                else "Add eligible: ") p.pc_name) s') pr.pr_cands s0
+  in
+  let bs =
+    flat_map (fun pat ->
+      let (m, r) = pat in
+      (match r with
+       | [] -> []
+       | _ :: _ ->
+         { bmult = (a.of_int m); bidx = O; bweight = (a.of_int (Zpos XH));
+           bres = (v0' a); brank = r } :: [])) pr.pr_ballots
+  in
+  let ebs =
+    flat_map (fun pat ->
+      let (m, r) = pat in
+      (match r with
+       | [] -> []
+       | _ :: _ -> { emult = (a.of_int m); eres = (v0' a); erank = r } :: []))
+      pr.pr_eballots
+  in
+  set_eballots a (set_ballots a s1 bs) ebs
+
+(** val rule_cmd : arith -> config -> rule -> est cmd **)
+
+let rule_cmd a cfg = function
+| RWigm -> wigm a cfg
+| RWigmPrf -> wigm_prf a cfg
+| RScotland -> scotland a cfg
+| RCfer -> cfer a cfg
+| RMpls -> mpls a cfg
+| RMeek -> meek a cfg
+| RMeekPrf -> meek_prf a cfg
+| RQpq -> qpq a cfg
+
+(** val count_cmd : arith -> config -> rule -> est cmd **)
+
+let count_cmd a cfg r =
+  Seq ((Do (fun s ->
+    set_cands a s (map (fun c -> with_vote a c (v0' a)) s.cands))), (Seq
+    ((rule_cmd a cfg r), (Do (log_action a cfg TEnd "Count Complete")))))
+
+(** val post_check : arith -> config -> est -> bool **)
+
+let post_check a cfg s =
+  let ne = nlen (electeds a s) in
+  (||) (Z.eqb ne cfg.cf_nseats)
+    ((&&) (Z.ltb ne cfg.cf_nseats) (Z.eqb ne (nlen (eligibles a s))))
+
+(** val run_count :
+    arith -> config -> positive -> rule -> profile -> outcome **)
+
+let run_count a cfg fuel r pr =
+  match exec (crashed a) fuel (count_cmd a cfg r) (init_state a cfg pr) with
+  | Some p ->
+    let (s, _) = p in
+    (match s.crash with
+     | Some e -> Crashed (s, e)
+     | None -> Done (s, (post_check a cfg s)))
+  | None -> OutOfFuel
 
 type tok =
 | TI of z
@@ -2117,6 +4628,576 @@ let run_values = function
                                               a kb b kc c rest)))))))))))))
    | Zneg _ -> "badcase")
 
+(** val rd_int : tok list -> (z * tok list) option **)
+
+let rd_int = function
+| [] -> None
+| t0 :: t1 -> (match t0 with
+               | TI z0 -> Some (z0, t1)
+               | TS _ -> None)
+
+(** val rd_ints : nat -> tok list -> (z list * tok list) option **)
+
+let rec rd_ints n0 l =
+  match n0 with
+  | O -> Some ([], l)
+  | S k ->
+    (match rd_int l with
+     | Some p ->
+       let (z0, t0) = p in
+       (match rd_ints k t0 with
+        | Some p0 -> let (zs, t') = p0 in Some ((z0 :: zs), t')
+        | None -> None)
+     | None -> None)
+
+(** val rd_cand : tok list -> (pcand * tok list) option **)
+
+let rd_cand = function
+| [] -> None
+| t0 :: l0 ->
+  (match t0 with
+   | TI c ->
+     (match l0 with
+      | [] -> None
+      | t1 :: l1 ->
+        (match t1 with
+         | TI o ->
+           (match l1 with
+            | [] -> None
+            | t2 :: l2 ->
+              (match t2 with
+               | TI ti ->
+                 (match l2 with
+                  | [] -> None
+                  | t3 :: l3 ->
+                    (match t3 with
+                     | TI _ -> None
+                     | TS nm ->
+                       (match l3 with
+                        | [] -> None
+                        | t4 :: l4 ->
+                          (match t4 with
+                           | TI _ -> None
+                           | TS nk ->
+                             (match l4 with
+                              | [] -> None
+                              | t5 :: l5 ->
+                                (match t5 with
+                                 | TI w ->
+                                   (match l5 with
+                                    | [] -> None
+                                    | t6 :: t7 ->
+                                      (match t6 with
+                                       | TI u ->
+                                         Some ({ pc_cid = c; pc_order = o;
+                                           pc_tie = ti; pc_name = nm;
+                                           pc_nick = nk; pc_withdrawn =
+                                           (negb (Z.eqb w Z0));
+                                           pc_undeclared =
+                                           (negb (Z.eqb u Z0)) }, t7)
+                                       | TS _ -> None))
+                                 | TS _ -> None))))))
+               | TS _ -> None))
+         | TS _ -> None))
+   | TS _ -> None)
+
+(** val rd_many :
+    (tok list -> ('a1 * tok list) option) -> nat -> tok list -> ('a1
+    list * tok list) option **)
+
+let rec rd_many rd n0 l =
+  match n0 with
+  | O -> Some ([], l)
+  | S k ->
+    (match rd l with
+     | Some p ->
+       let (x, t0) = p in
+       (match rd_many rd k t0 with
+        | Some p0 -> let (xs, t') = p0 in Some ((x :: xs), t')
+        | None -> None)
+     | None -> None)
+
+(** val rd_ballot : tok list -> ((z * z list) * tok list) option **)
+
+let rd_ballot = function
+| [] -> None
+| t0 :: l0 ->
+  (match t0 with
+   | TI m ->
+     (match l0 with
+      | [] -> None
+      | t1 :: t2 ->
+        (match t1 with
+         | TI n0 ->
+           (match rd_ints (Z.to_nat n0) t2 with
+            | Some p -> let (r, t') = p in Some ((m, r), t')
+            | None -> None)
+         | TS _ -> None))
+   | TS _ -> None)
+
+(** val rd_rank : tok list -> (z list * tok list) option **)
+
+let rd_rank = function
+| [] -> None
+| t0 :: t1 -> (match t0 with
+               | TI n0 -> rd_ints (Z.to_nat n0) t1
+               | TS _ -> None)
+
+(** val rd_eballot : tok list -> ((z * z list list) * tok list) option **)
+
+let rd_eballot = function
+| [] -> None
+| t0 :: l0 ->
+  (match t0 with
+   | TI m ->
+     (match l0 with
+      | [] -> None
+      | t1 :: t2 ->
+        (match t1 with
+         | TI n0 ->
+           (match rd_many rd_rank (Z.to_nat n0) t2 with
+            | Some p -> let (r, t') = p in Some ((m, r), t')
+            | None -> None)
+         | TS _ -> None))
+   | TS _ -> None)
+
+(** val tag_name : tag -> string **)
+
+let tag_name = function
+| TBegin -> "begin"
+| TCount -> "count"
+| TLog -> "log"
+| TRound -> "round"
+| TTie -> "tie"
+| TElect -> "elect"
+| TDefeat -> "defeat"
+| TIterate -> "iterate"
+| TUnpend -> "unpend"
+| TTransfer -> "transfer"
+| TEnd -> "end"
+
+(** val state_name : cstate -> string **)
+
+let state_name = function
+| Hopeful -> "hopeful"
+| Elected -> "elected"
+| Defeated -> "defeated"
+| Withdrawn -> "withdrawn"
+
+(** val is_wigm : meth -> bool **)
+
+let is_wigm = function
+| MWigm -> true
+| _ -> false
+
+(** val code_of : meth -> cstate -> bool option -> string **)
+
+let code_of m c p =
+  match c with
+  | Hopeful -> "H"
+  | Elected ->
+    if (&&) (is_wigm m) (match p with
+                         | Some b -> b
+                         | None -> false)
+    then "e"
+    else "E"
+  | Defeated -> "D"
+  | Withdrawn -> "W"
+
+(** val lf : string **)
+
+let lf =
+  (* If this appears, you're using String internals. Please don't *)
+  (fun (c, s) -> String.make 1 c ^ s)
+
+    ((ascii_of_nat (S (S (S (S (S (S (S (S (S (S O))))))))))), "")
+
+(** val showv : arith -> t -> string **)
+
+let showv a v =
+  (^) (a.raw_repr v) ((^) "~" (a.str v))
+
+(** val showov : arith -> t option -> string **)
+
+let showov a = function
+| Some v -> showv a v
+| None -> "-"
+
+(** val show_pend : bool option -> string **)
+
+let show_pend = function
+| Some b -> if b then "1" else "0"
+| None -> "-"
+
+(** val show_csnap : arith -> meth -> csnap -> string **)
+
+let show_csnap a m c =
+  match c.sn_st with
+  | Withdrawn -> (^) "C " ((^) (string_of_Z c.sn_cid) ((^) " withdrawn W" lf))
+  | x ->
+    (^) "C "
+      ((^) (string_of_Z c.sn_cid)
+        ((^) " "
+          ((^) (state_name x)
+            ((^) " "
+              ((^) (code_of m x c.sn_pend)
+                ((^) " "
+                  ((^) (showv a c.sn_vote)
+                    ((^) " kf="
+                      ((^) (showov a c.sn_kf)
+                        ((^) " quo="
+                          ((^) (showov a c.sn_quo)
+                            ((^) " p=" ((^) (show_pend c.sn_pend) lf)))))))))))))
+
+(** val show_ballots : arith -> (nat * t) list -> string **)
+
+let show_ballots a l =
+  (^) "B"
+    ((^)
+      (fold_right (fun pat acc ->
+        let (i, w) = pat in
+        (^) " "
+          ((^) (string_of_Z (Z.of_nat i)) ((^) ":" ((^) (a.raw_repr w) acc))))
+        "" l) lf)
+
+(** val show_action : arith -> meth -> action -> string **)
+
+let show_action a m a0 =
+  (^) "A "
+    ((^) (tag_name a0.a_tag)
+      ((^) " "
+        ((^) (string_of_Z a0.a_round)
+          ((^) " "
+            ((^) a0.a_msg
+              ((^) lf
+                (match a0.a_snap with
+                 | Some sn ->
+                   (^) "S q="
+                     ((^) (showv a sn.as_quota)
+                       ((^) " v="
+                         ((^) (showv a sn.as_votes)
+                           ((^) " nt="
+                             ((^) (showov a sn.as_nt)
+                               ((^) " s="
+                                 ((^) (showov a sn.as_surplus)
+                                   ((^) lf
+                                     ((^)
+                                       (fold_right (fun c acc ->
+                                         (^) (show_csnap a m c) acc) ""
+                                         sn.as_c)
+                                       (show_ballots a sn.as_ballots))))))))))
+                 | None -> "")))))))
+
+(** val show_cids : arith -> cand list -> string **)
+
+let show_cids _ l =
+  fold_right (fun c acc -> (^) " " ((^) (string_of_Z c.cid) acc)) "" l
+
+(** val show_outcome : arith -> meth -> outcome -> string **)
+
+let show_outcome a m = function
+| Done (s, ok) ->
+  (^) (fold_left (fun acc a0 -> (^) (show_action a m a0) acc) s.actions "")
+    ((^) "R elected="
+      ((^) (show_cids a (electeds a s))
+        ((^) " defeated="
+          ((^) (show_cids a (defeateds a s))
+            ((^) " withdrawn="
+              ((^) (show_cids a (withdrawns a s))
+                ((^) lf (if ok then "P ok" else "X AssertionError"))))))))
+| Crashed (s, e) ->
+  (^) (fold_left (fun acc a0 -> (^) (show_action a m a0) acc) s.actions "")
+    ((^) "X " (exn_name e))
+| OutOfFuel -> "X OutOfFuel"
+
+(** val rule_of : z -> rule **)
+
+let rule_of = function
+| Z0 -> RWigm
+| Zpos p ->
+  (match p with
+   | XI p0 ->
+     (match p0 with
+      | XI _ -> RQpq
+      | XO p1 -> (match p1 with
+                  | XH -> RMeek
+                  | _ -> RQpq)
+      | XH -> RCfer)
+   | XO p0 ->
+     (match p0 with
+      | XI p1 -> (match p1 with
+                  | XH -> RMeekPrf
+                  | _ -> RQpq)
+      | XO p1 -> (match p1 with
+                  | XH -> RMpls
+                  | _ -> RQpq)
+      | XH -> RScotland)
+   | XH -> RWigmPrf)
+| Zneg _ -> RQpq
+
+(** val meth_of : rule -> meth **)
+
+let meth_of = function
+| RMeek -> MMeek
+| RMeekPrf -> MMeek
+| RQpq -> MQpq
+| _ -> MWigm
+
+(** val run_count_case : tok list -> string **)
+
+let run_count_case = function
+| [] -> "badcount"
+| t0 :: l0 ->
+  (match t0 with
+   | TI _ -> "badcount"
+   | TS rname ->
+     (match l0 with
+      | [] -> "badcount"
+      | t1 :: l1 ->
+        (match t1 with
+         | TI rl ->
+           (match l1 with
+            | [] -> "badcount"
+            | t2 :: l2 ->
+              (match t2 with
+               | TI ar ->
+                 (match l2 with
+                  | [] -> "badcount"
+                  | t3 :: l3 ->
+                    (match t3 with
+                     | TI p ->
+                       (match l3 with
+                        | [] -> "badcount"
+                        | t4 :: l4 ->
+                          (match t4 with
+                           | TI g ->
+                             (match l4 with
+                              | [] -> "badcount"
+                              | t5 :: l5 ->
+                                (match t5 with
+                                 | TI d ->
+                                   (match l5 with
+                                    | [] -> "badcount"
+                                    | t6 :: l6 ->
+                                      (match t6 with
+                                       | TI stale ->
+                                         (match l6 with
+                                          | [] -> "badcount"
+                                          | t7 :: l7 ->
+                                            (match t7 with
+                                             | TI om ->
+                                               (match l7 with
+                                                | [] -> "badcount"
+                                                | t8 :: l8 ->
+                                                  (match t8 with
+                                                   | TI iq ->
+                                                     (match l8 with
+                                                      | [] -> "badcount"
+                                                      | t9 :: l9 ->
+                                                        (match t9 with
+                                                         | TI bz ->
+                                                           (match l9 with
+                                                            | [] -> "badcount"
+                                                            | t10 :: l10 ->
+                                                              (match t10 with
+                                                               | TI bt ->
+                                                                 (match l10 with
+                                                                  | [] ->
+                                                                    "badcount"
+                                                                  | t11 :: l11 ->
+                                                                    (match t11 with
+                                                                    | TI wa ->
+                                                                    (match l11 with
+                                                                    | [] ->
+                                                                    "badcount"
+                                                                    | t12 :: l12 ->
+                                                                    (match t12 with
+                                                                    | TI fb ->
+                                                                    (match l12 with
+                                                                    | [] ->
+                                                                    "badcount"
+                                                                    | t13 :: l13 ->
+                                                                    (match t13 with
+                                                                    | TI ns ->
+                                                                    (match l13 with
+                                                                    | [] ->
+                                                                    "badcount"
+                                                                    | t14 :: l14 ->
+                                                                    (match t14 with
+                                                                    | TI nb ->
+                                                                    (match l14 with
+                                                                    | [] ->
+                                                                    "badcount"
+                                                                    | t15 :: rest ->
+                                                                    (match t15 with
+                                                                    | TI nc ->
+                                                                    (match 
+                                                                    rd_many
+                                                                    rd_cand
+                                                                    (Z.to_nat
+                                                                    nc) rest with
+                                                                    | Some p0 ->
+                                                                    let (
+                                                                    cs, rest1) =
+                                                                    p0
+                                                                    in
+                                                                    (
+                                                                    match rest1 with
+                                                                    | [] ->
+                                                                    "badballots"
+                                                                    | t16 :: rest2 ->
+                                                                    (match t16 with
+                                                                    | TI nbl ->
+                                                                    (match 
+                                                                    rd_many
+                                                                    rd_ballot
+                                                                    (Z.to_nat
+                                                                    nbl) rest2 with
+                                                                    | Some p1 ->
+                                                                    let (
+                                                                    bs, rest3) =
+                                                                    p1
+                                                                    in
+                                                                    (
+                                                                    match rest3 with
+                                                                    | [] ->
+                                                                    "badeballots"
+                                                                    | t17 :: rest4 ->
+                                                                    (match t17 with
+                                                                    | TI nebl ->
+                                                                    (match 
+                                                                    rd_many
+                                                                    rd_eballot
+                                                                    (Z.to_nat
+                                                                    nebl)
+                                                                    rest4 with
+                                                                    | Some p2 ->
+                                                                    let (
+                                                                    ebs, _) =
+                                                                    p2
+                                                                    in
+                                                                    let r =
+                                                                    rule_of rl
+                                                                    in
+                                                                    let cfg =
+                                                                    { cf_rule =
+                                                                    rname;
+                                                                    cf_method =
+                                                                    (meth_of
+                                                                    r);
+                                                                    cf_nseats =
+                                                                    ns;
+                                                                    cf_nballots =
+                                                                    nb;
+                                                                    cf_integer_quota =
+                                                                    (negb
+                                                                    (Z.eqb iq
+                                                                    Z0));
+                                                                    cf_batch_zero =
+                                                                    (negb
+                                                                    (Z.eqb bz
+                                                                    Z0));
+                                                                    cf_batch =
+                                                                    (negb
+                                                                    (Z.eqb bt
+                                                                    Z0));
+                                                                    cf_warren =
+                                                                    (negb
+                                                                    (Z.eqb wa
+                                                                    Z0));
+                                                                    cf_omega10 =
+                                                                    om }
+                                                                    in
+                                                                    let pr =
+                                                                    { pr_nseats =
+                                                                    ns;
+                                                                    pr_nballots =
+                                                                    nb;
+                                                                    pr_cands =
+                                                                    cs;
+                                                                    pr_ballots =
+                                                                    bs;
+                                                                    pr_eballots =
+                                                                    ebs }
+                                                                    in
+                                                                    let fuel =
+                                                                    Coq_Pos.pow
+                                                                    (XO XH)
+                                                                    (Z.to_pos
+                                                                    fb)
+                                                                    in
+                                                                    if 
+                                                                    Z.eqb ar
+                                                                    Z0
+                                                                    then 
+                                                                    show_outcome
+                                                                    (fixed p
+                                                                    d)
+                                                                    (meth_of
+                                                                    r)
+                                                                    (run_count
+                                                                    (fixed p
+                                                                    d) cfg
+                                                                    fuel r pr)
+                                                                    else 
+                                                                    if 
+                                                                    Z.eqb ar
+                                                                    (Zpos XH)
+                                                                    then 
+                                                                    show_outcome
+                                                                    (guarded
+                                                                    p g d
+                                                                    stale)
+                                                                    (meth_of
+                                                                    r)
+                                                                    (run_count
+                                                                    (guarded
+                                                                    p g d
+                                                                    stale)
+                                                                    cfg fuel
+                                                                    r pr)
+                                                                    else 
+                                                                    show_outcome
+                                                                    (rational
+                                                                    d)
+                                                                    (meth_of
+                                                                    r)
+                                                                    (run_count
+                                                                    (rational
+                                                                    d) cfg
+                                                                    fuel r pr)
+                                                                    | None ->
+                                                                    "badeballots")
+                                                                    | TS _ ->
+                                                                    "badeballots"))
+                                                                    | None ->
+                                                                    "badballots")
+                                                                    | TS _ ->
+                                                                    "badballots"))
+                                                                    | None ->
+                                                                    "badcands")
+                                                                    | TS _ ->
+                                                                    "badcount"))
+                                                                    | TS _ ->
+                                                                    "badcount"))
+                                                                    | TS _ ->
+                                                                    "badcount"))
+                                                                    | TS _ ->
+                                                                    "badcount"))
+                                                                    | TS _ ->
+                                                                    "badcount"))
+                                                               | TS _ ->
+                                                                 "badcount"))
+                                                         | TS _ -> "badcount"))
+                                                   | TS _ -> "badcount"))
+                                             | TS _ -> "badcount"))
+                                       | TS _ -> "badcount"))
+                                 | TS _ -> "badcount"))
+                           | TS _ -> "badcount"))
+                     | TS _ -> "badcount"))
+               | TS _ -> "badcount"))
+         | TS _ -> "badcount")))
+
 (** val run : tok list -> string **)
 
 let run = function
@@ -2139,7 +5220,219 @@ let run = function
   f (h 0) (h 1) (h 2) (h 3) (h 4) (h 5) (h 6) (h 7))
           (fun b b0 b1 b2 b3 b4 b5 b6 ->
           if b
-          then "badcommand"
+          then if b0
+               then if b1
+                    then "badcommand"
+                    else if b2
+                         then "badcommand"
+                         else if b3
+                              then "badcommand"
+                              else if b4
+                                   then if b5
+                                        then if b6
+                                             then "badcommand"
+                                             else ((* If this appears, you're using String internals. Please don't *)
+ (fun f0 f1 s ->
+    let l = String.length s in
+    if l = 0 then f0 () else f1 (String.get s 0) (String.sub s 1 (l-1)))
+
+                                                     (fun _ ->
+                                                     "badcommand")
+                                                     (fun a0 s1 ->
+                                                     (* If this appears, you're using Ascii internals. Please don't *)
+ (fun f c ->
+  let n = Char.code c in
+  let h i = (n land (1 lsl i)) <> 0 in
+  f (h 0) (h 1) (h 2) (h 3) (h 4) (h 5) (h 6) (h 7))
+                                                       (fun b7 b8 b9 b10 b11 b12 b13 b14 ->
+                                                       if b7
+                                                       then if b8
+                                                            then if b9
+                                                                 then 
+                                                                   if b10
+                                                                   then 
+                                                                    if b11
+                                                                    then 
+                                                                    "badcommand"
+                                                                    else 
+                                                                    if b12
+                                                                    then 
+                                                                    if b13
+                                                                    then 
+                                                                    if b14
+                                                                    then 
+                                                                    "badcommand"
+                                                                    else 
+                                                                    ((* If this appears, you're using String internals. Please don't *)
+ (fun f0 f1 s ->
+    let l = String.length s in
+    if l = 0 then f0 () else f1 (String.get s 0) (String.sub s 1 (l-1)))
+
+                                                                    (fun _ ->
+                                                                    "badcommand")
+                                                                    (fun a1 s2 ->
+                                                                    (* If this appears, you're using Ascii internals. Please don't *)
+ (fun f c ->
+  let n = Char.code c in
+  let h i = (n land (1 lsl i)) <> 0 in
+  f (h 0) (h 1) (h 2) (h 3) (h 4) (h 5) (h 6) (h 7))
+                                                                    (fun b15 b16 b17 b18 b19 b20 b21 b22 ->
+                                                                    if b15
+                                                                    then 
+                                                                    if b16
+                                                                    then 
+                                                                    "badcommand"
+                                                                    else 
+                                                                    if b17
+                                                                    then 
+                                                                    if b18
+                                                                    then 
+                                                                    "badcommand"
+                                                                    else 
+                                                                    if b19
+                                                                    then 
+                                                                    if b20
+                                                                    then 
+                                                                    if b21
+                                                                    then 
+                                                                    if b22
+                                                                    then 
+                                                                    "badcommand"
+                                                                    else 
+                                                                    ((* If this appears, you're using String internals. Please don't *)
+ (fun f0 f1 s ->
+    let l = String.length s in
+    if l = 0 then f0 () else f1 (String.get s 0) (String.sub s 1 (l-1)))
+
+                                                                    (fun _ ->
+                                                                    "badcommand")
+                                                                    (fun a2 s3 ->
+                                                                    (* If this appears, you're using Ascii internals. Please don't *)
+ (fun f c ->
+  let n = Char.code c in
+  let h i = (n land (1 lsl i)) <> 0 in
+  f (h 0) (h 1) (h 2) (h 3) (h 4) (h 5) (h 6) (h 7))
+                                                                    (fun b23 b24 b25 b26 b27 b28 b29 b30 ->
+                                                                    if b23
+                                                                    then 
+                                                                    "badcommand"
+                                                                    else 
+                                                                    if b24
+                                                                    then 
+                                                                    if b25
+                                                                    then 
+                                                                    if b26
+                                                                    then 
+                                                                    if b27
+                                                                    then 
+                                                                    "badcommand"
+                                                                    else 
+                                                                    if b28
+                                                                    then 
+                                                                    if b29
+                                                                    then 
+                                                                    if b30
+                                                                    then 
+                                                                    "badcommand"
+                                                                    else 
+                                                                    ((* If this appears, you're using String internals. Please don't *)
+ (fun f0 f1 s ->
+    let l = String.length s in
+    if l = 0 then f0 () else f1 (String.get s 0) (String.sub s 1 (l-1)))
+
+                                                                    (fun _ ->
+                                                                    "badcommand")
+                                                                    (fun a3 s4 ->
+                                                                    (* If this appears, you're using Ascii internals. Please don't *)
+ (fun f c ->
+  let n = Char.code c in
+  let h i = (n land (1 lsl i)) <> 0 in
+  f (h 0) (h 1) (h 2) (h 3) (h 4) (h 5) (h 6) (h 7))
+                                                                    (fun b31 b32 b33 b34 b35 b36 b37 b38 ->
+                                                                    if b31
+                                                                    then 
+                                                                    "badcommand"
+                                                                    else 
+                                                                    if b32
+                                                                    then 
+                                                                    "badcommand"
+                                                                    else 
+                                                                    if b33
+                                                                    then 
+                                                                    if b34
+                                                                    then 
+                                                                    "badcommand"
+                                                                    else 
+                                                                    if b35
+                                                                    then 
+                                                                    if b36
+                                                                    then 
+                                                                    if b37
+                                                                    then 
+                                                                    if b38
+                                                                    then 
+                                                                    "badcommand"
+                                                                    else 
+                                                                    ((* If this appears, you're using String internals. Please don't *)
+ (fun f0 f1 s ->
+    let l = String.length s in
+    if l = 0 then f0 () else f1 (String.get s 0) (String.sub s 1 (l-1)))
+
+                                                                    (fun _ ->
+                                                                    run_count_case
+                                                                    rest)
+                                                                    (fun _ _ ->
+                                                                    "badcommand")
+                                                                    s4)
+                                                                    else 
+                                                                    "badcommand"
+                                                                    else 
+                                                                    "badcommand"
+                                                                    else 
+                                                                    "badcommand"
+                                                                    else 
+                                                                    "badcommand")
+                                                                    a3)
+                                                                    s3)
+                                                                    else 
+                                                                    "badcommand"
+                                                                    else 
+                                                                    "badcommand"
+                                                                    else 
+                                                                    "badcommand"
+                                                                    else 
+                                                                    "badcommand"
+                                                                    else 
+                                                                    "badcommand")
+                                                                    a2)
+                                                                    s2)
+                                                                    else 
+                                                                    "badcommand"
+                                                                    else 
+                                                                    "badcommand"
+                                                                    else 
+                                                                    "badcommand"
+                                                                    else 
+                                                                    "badcommand"
+                                                                    else 
+                                                                    "badcommand")
+                                                                    a1)
+                                                                    s1)
+                                                                    else 
+                                                                    "badcommand"
+                                                                    else 
+                                                                    "badcommand"
+                                                                   else 
+                                                                    "badcommand"
+                                                                 else 
+                                                                   "badcommand"
+                                                            else "badcommand"
+                                                       else "badcommand")
+                                                       a0)
+                                                     s0)
+                                        else "badcommand"
+                                   else "badcommand"
+               else "badcommand"
           else if b0
                then if b1
                     then if b2
